@@ -1295,3 +1295,1716 @@ Proof.
   - unfold all_rem. now rewrite E2.
   - exact HSS.
 Qed.
+
+
+(** * 7. The whole iterator pipeline over sorted sources *)
+
+Lemma rg_SS_impl {A} (R1 R2 : A -> A -> Prop) l :
+  (forall a b, R1 a b -> R2 a b) -> StronglySorted R1 l -> StronglySorted R2 l.
+Proof.
+  intros Himp. induction 1 as [|x l HS IH HF]; constructor; [exact IH|].
+  rewrite Forall_forall in *. auto.
+Qed.
+
+Lemma ikey_sorted_ksorted L : StronglySorted ikey_lt L -> ksorted L.
+Proof. apply rg_SS_impl. intros a b. apply rg_ikey_lt_key_le. Qed.
+
+Lemma run_pulls_TR fuel ps : forall it o,
+  TR merger MR fuel it o -> run_pulls fuel it ps = deque_run o ps.
+Proof.
+  induction ps as [|p ps IH]; intros it o H; [reflexivity|].
+  cbn [run_pulls deque_run]. destruct p.
+  - destruct (live_next_TR merger merge_next MR merge_next_spec fuel it o H) as (it' & E & H').
+    unfold ti_next. rewrite E. f_equal. now apply IH.
+  - destruct (live_next_back_TR merger merge_next_back MR merge_next_back_spec fuel it o H)
+      as (it' & E & H').
+    unfold ti_next_back. rewrite E. f_equal. now apply IH.
+Qed.
+
+Lemma tree_iter_TR srcs L fuel :
+  Forall (StronglySorted ikey_lt) srcs -> StronglySorted ikey_lt L ->
+  Permutation L (concat srcs) -> (length L < fuel)%nat ->
+  TR merger MR fuel (mkDep (merger_new srcs) Unpeeked Unpeeked) (live_out L).
+Proof.
+  intros HF HSS HP Hlen. exists L. split; [|split; [|split]]; auto.
+  - exists L. cbn [d_iter d_front d_back]. split; [now apply merger_new_MR|].
+    split; [unfold pv; cbn; now rewrite app_nil_r|]. split; discriminate.
+  - now apply ikey_sorted_ksorted.
+Qed.
+
+(** (i)+(ii): over sorted sources with pairwise distinct InternalKeys, any interleaving
+    of next / next_back pops the live group heads of the sorted union from either end *)
+Theorem pipeline_deque srcs L fuel ps :
+  Forall (StronglySorted ikey_lt) srcs -> StronglySorted ikey_lt L ->
+  Permutation L (concat srcs) -> (length L < fuel)%nat ->
+  run_pulls fuel (mkDep (merger_new srcs) Unpeeked Unpeeked) ps = deque_run (live_out L) ps.
+Proof. intros. apply run_pulls_TR. now apply tree_iter_TR. Qed.
+
+Lemma collect_front_TR fuel n : forall it o,
+  TR merger MR fuel it o -> (length o < n)%nat -> collect_front fuel n it = o.
+Proof.
+  induction n as [|n IH]; intros it o H Hlen; [lia|].
+  cbn [collect_front].
+  destruct (live_next_TR merger merge_next MR merge_next_spec fuel it o H) as (it' & E & H').
+  unfold ti_next. rewrite E. destruct o as [|x o]; [reflexivity|].
+  cbn [ohd tl length] in *. f_equal. apply IH; [exact H'|lia].
+Qed.
+
+(** * 8. Sorted union of the sources *)
+
+Fixpoint rg_insert (e : entry) (l : list entry) : list entry :=
+  match l with
+  | [] => [e]
+  | x :: l' => if ikey_ltb e x then e :: l else x :: rg_insert e l'
+  end.
+
+Definition rg_isort (l : list entry) : list entry := fold_right rg_insert [] l.
+
+(** pairwise distinct InternalKeys *)
+Definition dcmp (l : list entry) : Prop :=
+  NoDup l /\ forall x y, In x l -> In y l -> x = y \/ ikey_lt x y \/ ikey_lt y x.
+
+Lemma rg_insert_perm e l : Permutation (e :: l) (rg_insert e l).
+Proof.
+  induction l as [|x l IH]; cbn [rg_insert]; [apply Permutation_refl|].
+  destruct (ikey_ltb e x); [apply Permutation_refl|].
+  eapply perm_trans; [apply perm_swap|]. now apply perm_skip.
+Qed.
+
+Lemma rg_insert_SS e l :
+  StronglySorted ikey_lt l -> (forall x, In x l -> ikey_lt e x \/ ikey_lt x e) ->
+  StronglySorted ikey_lt (rg_insert e l).
+Proof.
+  induction 1 as [|x l HS IH HF]; intros Hc; cbn [rg_insert]; [repeat constructor|].
+  rewrite Forall_forall in HF.
+  destruct (ikey_ltb e x) eqn:E.
+  - constructor; [constructor; [exact HS|now rewrite Forall_forall]|].
+    rewrite Forall_forall. intros y [<-|Hy]; [exact E|].
+    eapply rg_ikey_lt_trans; [exact E|auto].
+  - constructor.
+    + apply IH. intros y Hy. apply Hc. right. exact Hy.
+    + rewrite Forall_forall. intros y Hy.
+      eapply Permutation_in in Hy; [|apply Permutation_sym; apply rg_insert_perm].
+      destruct Hy as [<-|Hy]; [|auto].
+      destruct (Hc x (or_introl eq_refl)) as [H|H]; [unfold ikey_lt in H; congruence|exact H].
+Qed.
+
+Lemma rg_isort_spec l : dcmp l ->
+  StronglySorted ikey_lt (rg_isort l) /\ Permutation (rg_isort l) l.
+Proof.
+  induction l as [|e l IH]; intros [Hnd Hc]; [split; constructor|].
+  inversion Hnd as [|? ? Hnin Hnd']; subst.
+  destruct IH as [HS HP].
+  { split; [exact Hnd'|]. intros x y Hx Hy. apply Hc; right; assumption. }
+  cbn [rg_isort fold_right]. fold (rg_isort l). split.
+  - apply rg_insert_SS; [exact HS|]. intros x Hx.
+    eapply Permutation_in in Hx; [|exact HP].
+    destruct (Hc e x (or_introl eq_refl) (or_intror Hx)) as [->|H]; [contradiction|exact H].
+  - eapply perm_trans; [apply Permutation_sym; apply rg_insert_perm|]. now apply perm_skip.
+Qed.
+
+Lemma dcmp_perm l l' : Permutation l l' -> dcmp l -> dcmp l'.
+Proof.
+  intros HP [Hnd Hc]. split; [eapply Permutation_NoDup; eauto|].
+  intros x y Hx Hy. apply Hc; (eapply Permutation_in; [apply Permutation_sym; exact HP|assumption]).
+Qed.
+
+Lemma dcmp_filter p l : dcmp l -> dcmp (filter p l).
+Proof.
+  intros [Hnd Hc]. split; [now apply NoDup_filter|].
+  intros x y Hx Hy. apply filter_In in Hx, Hy. apply Hc; tauto.
+Qed.
+
+Lemma rg_NoDup_app {A} (a b : list A) :
+  NoDup a -> NoDup b -> (forall x, In x a -> In x b -> False) -> NoDup (a ++ b).
+Proof.
+  induction 1 as [|x a Hx Ha IH]; intros Hb Hd; [exact Hb|].
+  cbn [app]. constructor.
+  - intros Hin. apply in_app_or in Hin. destruct Hin as [Hin|Hin]; [contradiction|].
+    apply (Hd x); [left; reflexivity|exact Hin].
+  - apply IH; [exact Hb|]. intros y Hy. apply Hd. right. exact Hy.
+Qed.
+
+Lemma dcmp_app a b :
+  dcmp a -> dcmp b -> (forall x y, In x a -> In y b -> ikey_lt x y \/ ikey_lt y x) ->
+  dcmp (a ++ b).
+Proof.
+  intros [Na Ca] [Nb Cb] Hab. split.
+  - apply rg_NoDup_app; auto. intros x Hx Hy.
+    destruct (Hab x x Hx Hy) as [H|H]; now apply rg_ikey_lt_irrefl in H.
+  - intros x y Hx Hy. apply in_app_or in Hx, Hy.
+    destruct Hx as [Hx|Hx], Hy as [Hy|Hy]; auto.
+    destruct (Hab y x Hy Hx) as [H|H]; auto.
+Qed.
+
+Lemma dcmp_sorted l : StronglySorted ikey_lt l -> dcmp l.
+Proof.
+  intros HS. split; [now apply rg_SS_NoDup|]. intros x y. now apply rg_sorted_trich.
+Qed.
+
+Lemma cmp_of_newer x y :
+  (ukey x = ukey y -> seq y < seq x) -> ikey_lt x y \/ ikey_lt y x.
+Proof.
+  intros H. unfold ikey_lt. rewrite !rg_ikey_ltb_iff.
+  destruct (key_lt_total (ukey x) (ukey y)) as [Hl|[He|Hg]]; auto.
+Qed.
+
+(** * 9. Group heads of a strictly sorted stream *)
+
+Definition ksort_strict (l : list entry) : Prop :=
+  StronglySorted (fun a b => key_lt (ukey a) (ukey b)) l.
+
+Lemma heads_from_in p L :
+  StronglySorted ikey_lt L -> (forall e, In e L -> key_le p (ukey e)) ->
+  forall e, In e (heads_from (Some p) L) <->
+    In e L /\ ukey e <> p /\ forall e', In e' L -> ukey e' = ukey e -> seq e' <= seq e.
+Proof.
+  intros HS. revert p. induction HS as [|x L HS IH HF]; intros p Hp e.
+  - cbn. tauto.
+  - rewrite Forall_forall in HF. cbn [heads_from].
+    assert (Hx : forall e0, In e0 L -> key_le (ukey x) (ukey e0)).
+    { intros e0 H0. apply rg_ikey_lt_key_le. auto. }
+    specialize (IH (ukey x) Hx e).
+    assert (Hsame : forall e0, In e0 L -> ukey e0 = ukey x -> seq e0 < seq x).
+    { intros e0 H0 Ek. specialize (HF e0 H0). unfold ikey_lt in HF.
+      apply rg_ikey_ltb_iff in HF. destruct HF as [Hl|[_ Hs]]; [|exact Hs].
+      rewrite Ek in Hl. now apply key_lt_irrefl in Hl. }
+    destruct (key_eqb p (ukey x)) eqn:Epx.
+    + apply key_eqb_eq in Epx. subst p. rewrite IH. split.
+      * intros (Hin & Hne & Hmax). split; [right; exact Hin|]. split; [exact Hne|].
+        intros e' [<-|He'] Ek; [congruence|auto].
+      * intros (Hin & Hne & Hmax). destruct Hin as [<-|Hin]; [congruence|].
+        split; [exact Hin|]. split; [exact Hne|]. intros e' He'. apply Hmax. right. exact He'.
+    + apply key_eqb_neq in Epx. cbn [In]. rewrite IH. split.
+      * intros [<-|(Hin & Hne & Hmax)].
+        -- split; [left; reflexivity|]. split; [congruence|].
+           intros e' [<-|He'] Ek; [lia|]. specialize (Hsame e' He' Ek). lia.
+        -- split; [right; exact Hin|]. split.
+           ++ intros Ek. apply Epx. apply key_le_antisym.
+              ** apply Hp. left. reflexivity.
+              ** rewrite <- Ek. apply Hx. exact Hin.
+           ++ intros e' [<-|He'] Ek; [congruence|auto].
+      * intros (Hin & Hne & Hmax). destruct Hin as [<-|Hin]; [left; reflexivity|].
+        right. split; [exact Hin|]. split.
+        -- intros Ek. specialize (Hsame e Hin Ek).
+           specialize (Hmax x (or_introl eq_refl) (eq_sym Ek)). lia.
+        -- intros e' He'. apply Hmax. right. exact He'.
+Qed.
+
+Lemma heads_in L e :
+  StronglySorted ikey_lt L ->
+  (In e (heads L) <-> In e L /\ forall e', In e' L -> ukey e' = ukey e -> seq e' <= seq e).
+Proof.
+  intros HS. destruct L as [|x L]; [cbn; tauto|].
+  inversion HS as [|? ? HS' HF]; subst. rewrite Forall_forall in HF.
+  unfold heads. cbn [heads_from In].
+  assert (Hx : forall e0, In e0 L -> key_le (ukey x) (ukey e0)).
+  { intros e0 H0. apply rg_ikey_lt_key_le. auto. }
+  assert (Hsame : forall e0, In e0 L -> ukey e0 = ukey x -> seq e0 < seq x).
+  { intros e0 H0 Ek. specialize (HF e0 H0). unfold ikey_lt in HF.
+    apply rg_ikey_ltb_iff in HF. destruct HF as [Hl|[_ Hs]]; [|exact Hs].
+    rewrite Ek in Hl. now apply key_lt_irrefl in Hl. }
+  rewrite (heads_from_in (ukey x) L HS' Hx e). split.
+  - intros [<-|(Hin & Hne & Hmax)].
+    + split; [left; reflexivity|]. intros e' [<-|He'] Ek; [lia|].
+      specialize (Hsame e' He' Ek). lia.
+    + split; [right; exact Hin|]. intros e' [<-|He'] Ek; [congruence|auto].
+  - intros (Hin & Hmax). destruct Hin as [<-|Hin]; [left; reflexivity|].
+    right. split; [exact Hin|]. split.
+    + intros Ek. specialize (Hsame e Hin Ek).
+      specialize (Hmax x (or_introl eq_refl) (eq_sym Ek)). lia.
+    + intros e' He'. apply Hmax. right. exact He'.
+Qed.
+
+Lemma heads_from_ksort p L :
+  StronglySorted ikey_lt L -> (forall e, In e L -> key_le p (ukey e)) ->
+  ksort_strict (heads_from (Some p) L).
+Proof.
+  intros HS. revert p. induction HS as [|x L HS IH HF]; intros p Hp; [constructor|].
+  rewrite Forall_forall in HF. cbn [heads_from].
+  assert (Hx : forall e0, In e0 L -> key_le (ukey x) (ukey e0)).
+  { intros e0 H0. apply rg_ikey_lt_key_le. auto. }
+  destruct (key_eqb p (ukey x)); [now apply IH|].
+  constructor; [now apply IH|]. rewrite Forall_forall. intros y Hy.
+  apply (heads_from_in (ukey x) L HS Hx) in Hy. destruct Hy as (Hin & Hne & _).
+  specialize (Hx y Hin). apply key_le_lteq in Hx. destruct Hx as [Hx|Hx]; [exact Hx|congruence].
+Qed.
+
+Lemma heads_ksort L : StronglySorted ikey_lt L -> ksort_strict (heads L).
+Proof.
+  intros HS. destruct L as [|x L]; [constructor|].
+  inversion HS as [|? ? HS' HF]; subst. rewrite Forall_forall in HF.
+  unfold heads. cbn [heads_from].
+  assert (Hx : forall e0, In e0 L -> key_le (ukey x) (ukey e0)).
+  { intros e0 H0. apply rg_ikey_lt_key_le. auto. }
+  constructor; [now apply heads_from_ksort|]. rewrite Forall_forall. intros y Hy.
+  apply (heads_from_in (ukey x) L HS' Hx) in Hy. destruct Hy as (Hin & Hne & _).
+  specialize (Hx y Hin). apply key_le_lteq in Hx. destruct Hx as [Hx|Hx]; [exact Hx|congruence].
+Qed.
+
+(** two strictly key-sorted lists with the same members are equal *)
+Lemma ksort_ext l1 l2 :
+  ksort_strict l1 -> ksort_strict l2 -> (forall e, In e l1 <-> In e l2) -> l1 = l2.
+Proof.
+  intros H1. revert l2. induction H1 as [|a l1 HS1 IH HF1]; intros l2 H2 Hiff.
+  - destruct l2 as [|b l2]; [reflexivity|]. exfalso. apply (Hiff b). left. reflexivity.
+  - destruct H2 as [|b l2 HS2 HF2].
+    + exfalso. apply (Hiff a). left. reflexivity.
+    + rewrite Forall_forall in HF1, HF2.
+      assert (Eab : a = b).
+      { destruct (proj1 (Hiff a) (or_introl eq_refl)) as [E|Ha]; [auto|].
+        destruct (proj2 (Hiff b) (or_introl eq_refl)) as [E|Hb]; [auto|].
+        exfalso. eapply key_lt_irrefl. eapply key_lt_trans; [apply (HF1 b Hb)|apply (HF2 a Ha)]. }
+      subst b. f_equal. apply IH; [exact HS2|]. intros e. split; intros He.
+      * destruct (proj1 (Hiff e) (or_intror He)) as [E|H]; [|exact H].
+        subst e. exfalso. eapply key_lt_irrefl. apply (HF1 a He).
+      * destruct (proj2 (Hiff e) (or_intror He)) as [E|H]; [|exact H].
+        subst e. exfalso. eapply key_lt_irrefl. apply (HF2 a He).
+Qed.
+
+Lemma live_out_in L e :
+  StronglySorted ikey_lt L ->
+  (In e (live_out L) <->
+   In e L /\ is_tomb e = false /\ forall e', In e' L -> ukey e' = ukey e -> seq e' <= seq e).
+Proof.
+  intros HS. unfold live_out. rewrite filter_In, (heads_in L e HS). unfold nt.
+  rewrite negb_true_iff. tauto.
+Qed.
+
+Lemma live_out_ksort L : StronglySorted ikey_lt L -> ksort_strict (live_out L).
+Proof. intros HS. apply rg_SS_filter. now apply heads_ksort. Qed.
+
+
+(** * 10. The Spec side *)
+
+Lemma key_insert_in k x l : In x (key_insert k l) <-> x = k \/ In x l.
+Proof.
+  induction l as [|y l IH]; cbn [key_insert In]; [intuition|].
+  destruct (key_cmp k y) eqn:E; cbn [In].
+  - apply key_cmp_eq in E. subst y. intuition.
+  - intuition.
+  - rewrite IH. intuition.
+Qed.
+
+Lemma key_insert_sorted k l :
+  StronglySorted key_lt l -> StronglySorted key_lt (key_insert k l).
+Proof.
+  induction 1 as [|y l HS IH HF]; cbn [key_insert]; [repeat constructor|].
+  rewrite Forall_forall in HF.
+  destruct (key_cmp k y) eqn:E.
+  - constructor; [exact HS|now rewrite Forall_forall].
+  - constructor; [constructor; [exact HS|now rewrite Forall_forall]|].
+    rewrite Forall_forall. intros z [<-|Hz]; [exact E|].
+    eapply key_lt_trans; [exact E|auto].
+  - constructor; [exact IH|]. rewrite Forall_forall. intros z Hz.
+    apply key_insert_in in Hz. destruct Hz as [->|Hz]; [now apply key_lt_gt|auto].
+Qed.
+
+Lemma keys_of_sorted H : StronglySorted key_lt (keys_of H).
+Proof.
+  unfold keys_of. induction H as [|e H IH]; cbn [fold_right]; [constructor|].
+  now apply key_insert_sorted.
+Qed.
+
+Lemma keys_of_in H k : In k (keys_of H) <-> exists e, In e H /\ ukey e = k.
+Proof.
+  unfold keys_of. induction H as [|e H IH]; cbn [fold_right].
+  - split; [contradiction|]. intros (e & [] & _).
+  - rewrite key_insert_in, IH. split.
+    + intros [->|(e' & He' & Ek)]; [exists e; split; [left|]; reflexivity|].
+      exists e'. split; [right; exact He'|exact Ek].
+    + intros (e' & [<-|He'] & Ek); [left; auto|right; eauto].
+Qed.
+
+Definition opt_list (o : option entry) : list entry :=
+  match o with Some e => [e] | None => [] end.
+
+(** the shape of [spec_range], for an arbitrary per-key result [g] *)
+Definition spec_list (g : key -> option entry) (lo hi : bound) (ks : list key) : list entry :=
+  flat_map (fun k => if in_bounds lo hi k then opt_list (g k) else []) ks.
+
+Lemma spec_range_list H lo hi S :
+  spec_range H lo hi S = spec_list (fun k => spec_get H k S) lo hi (keys_of H).
+Proof. reflexivity. Qed.
+
+Lemma spec_list_in g lo hi ks e :
+  (forall k e, g k = Some e -> ukey e = k) ->
+  (In e (spec_list g lo hi ks) <->
+   In (ukey e) ks /\ in_bounds lo hi (ukey e) = true /\ g (ukey e) = Some e).
+Proof.
+  intros Hg. unfold spec_list. rewrite in_flat_map. split.
+  - intros (k & Hk & He). destruct (in_bounds lo hi k) eqn:Eb; [|contradiction].
+    destruct (g k) as [e0|] eqn:Eg; [|contradiction].
+    destruct He as [<-|[]]. rewrite (Hg k e0 Eg). auto.
+  - intros (Hk & Eb & Eg). exists (ukey e). split; [exact Hk|].
+    rewrite Eb, Eg. left. reflexivity.
+Qed.
+
+Lemma spec_list_ksort g lo hi ks :
+  (forall k e, g k = Some e -> ukey e = k) ->
+  StronglySorted key_lt ks -> ksort_strict (spec_list g lo hi ks).
+Proof.
+  intros Hg. induction 1 as [|k ks HS IH HF]; [constructor|].
+  rewrite Forall_forall in HF. unfold spec_list. cbn [flat_map]. fold (spec_list g lo hi ks).
+  apply rg_SS_app; [| exact IH |].
+  - destruct (in_bounds lo hi k); [|constructor].
+    destruct (g k); repeat constructor.
+  - intros x y Hx Hy.
+    assert (Ex : ukey x = k).
+    { destruct (in_bounds lo hi k); [|contradiction].
+      destruct (g k) as [e0|] eqn:Eg; [|contradiction]. destruct Hx as [<-|[]]. eauto. }
+    apply (spec_list_in g lo hi ks y Hg) in Hy. destruct Hy as (Hy & _). rewrite Ex. auto.
+Qed.
+
+Lemma visible_some o e : visible o = Some e <-> o = Some e /\ is_tomb e = false.
+Proof.
+  destruct o as [x|]; cbn [visible].
+  - destruct (is_tomb x) eqn:E; split.
+    + discriminate.
+    + intros [H1 H2]. inversion H1; subst. congruence.
+    + intros H. inversion H; subst. auto.
+    + intros [H1 _]. exact H1.
+  - split; [discriminate|]. intros [H _]. discriminate.
+Qed.
+
+Lemma dcmp_uniq l : dcmp l -> uniq l.
+Proof.
+  intros [_ Hc] e1 e2 H1 H2 Ek Es.
+  destruct (Hc e1 e2 H1 H2) as [E|[H|H]]; [exact E| |]; exfalso;
+    unfold ikey_lt in H; apply rg_ikey_ltb_iff in H; destruct H as [H|[_ H]]; try lia.
+  - rewrite Ek in H. now apply key_lt_irrefl in H.
+  - rewrite Ek in H. now apply key_lt_irrefl in H.
+Qed.
+
+(** per-key result of a scan over an overlay [ov] read at [so] on top of [ct] read at [S] *)
+Definition overlay_get (ov ct : list entry) (so S : N) (k : key) : option entry :=
+  visible (match newest k so ov with Some e => Some e | None => newest k S ct end).
+
+(** (iv): the live group heads of the sorted union of the visible in-bounds entries are
+    the Spec's answers, key by key *)
+Lemma scan_equals_spec (ct ov : list entry) (S so : N) lo hi L :
+  uniq ct -> uniq ov ->
+  (forall x y, In x ov -> In y ct -> seq y < seq x) ->
+  StronglySorted ikey_lt L ->
+  (forall e, In e L <->
+     In e (filter (fun e => in_bounds lo hi (ukey e) && (seq e <? so)) ov)
+     \/ In e (filter (fun e => in_bounds lo hi (ukey e) && (seq e <? S)) ct)) ->
+  live_out L = spec_list (overlay_get ov ct so S) lo hi (keys_of (ov ++ ct)).
+Proof.
+  intros Uc Uo Hnew HS HL.
+  assert (Hg : forall k e, overlay_get ov ct so S k = Some e -> ukey e = k).
+  { intros k e H. unfold overlay_get in H. apply visible_some in H. destruct H as [H _].
+    destruct (newest k so ov) as [e0|] eqn:E0.
+    - inversion H; subst. apply newest_some in E0. destruct E0 as [_ M].
+      apply matches_iff in M. tauto.
+    - apply newest_some in H. destruct H as [_ M]. apply matches_iff in M. tauto. }
+  apply ksort_ext.
+  - now apply live_out_ksort.
+  - apply spec_list_ksort; [exact Hg|apply keys_of_sorted].
+  - intros e. rewrite (live_out_in L e HS), (spec_list_in _ lo hi _ e Hg).
+    assert (HLo : forall x, In x ov -> ukey x = ukey e -> in_bounds lo hi (ukey e) = true ->
+                   seq x < so -> In x L).
+    { intros x Hx Ek Eb Hs. apply HL. left. apply filter_In. split; [exact Hx|].
+      rewrite Ek, Eb. cbn [andb]. now apply N.ltb_lt. }
+    assert (HLc : forall x, In x ct -> ukey x = ukey e -> in_bounds lo hi (ukey e) = true ->
+                   seq x < S -> In x L).
+    { intros x Hx Ek Eb Hs. apply HL. right. apply filter_In. split; [exact Hx|].
+      rewrite Ek, Eb. cbn [andb]. now apply N.ltb_lt. }
+    split.
+    + intros (Hin & Hnt & Hmax). apply HL in Hin.
+      destruct Hin as [Hin|Hin]; apply filter_In in Hin; destruct Hin as [Hin Hp];
+        apply andb_true_iff in Hp; destruct Hp as [Eb Hs]; apply N.ltb_lt in Hs.
+      * split; [apply keys_of_in; exists e; split; [apply in_or_app; left; exact Hin|reflexivity]|].
+        split; [exact Eb|]. unfold overlay_get.
+        rewrite (newest_char (ukey e) so ov e Uo Hin).
+        -- apply visible_some. auto.
+        -- apply matches_iff. auto.
+        -- intros e' He' M. apply matches_iff in M. destruct M as [Ek Hs'].
+           apply Hmax; [|exact Ek]. now apply HLo.
+      * split; [apply keys_of_in; exists e; split; [apply in_or_app; right; exact Hin|reflexivity]|].
+        split; [exact Eb|]. unfold overlay_get.
+        assert (En : newest (ukey e) so ov = None).
+        { apply newest_none. intros e' He'. destruct (matches (ukey e) so e') eqn:M; [|reflexivity].
+          exfalso. apply matches_iff in M. destruct M as [Ek Hs'].
+          assert (Hle : seq e' <= seq e) by (apply Hmax; [now apply HLo|exact Ek]).
+          specialize (Hnew e' e He' Hin). lia. }
+        rewrite En, (newest_char (ukey e) S ct e Uc Hin).
+        -- apply visible_some. auto.
+        -- apply matches_iff. auto.
+        -- intros e' He' M. apply matches_iff in M. destruct M as [Ek Hs'].
+           apply Hmax; [|exact Ek]. now apply HLc.
+    + intros (Hk & Eb & Hgv). unfold overlay_get in Hgv. apply visible_some in Hgv.
+      destruct Hgv as [Hgv Hnt].
+      destruct (newest (ukey e) so ov) as [e0|] eqn:E0.
+      * inversion Hgv; subst e0. pose proof (newest_some _ _ _ _ E0) as [Hin M].
+        apply matches_iff in M. destruct M as [_ Hs].
+        split; [now apply HLo|]. split; [exact Hnt|].
+        intros e' He' Ek. apply HL in He'.
+        destruct He' as [He'|He']; apply filter_In in He'; destruct He' as [He' Hp];
+          apply andb_true_iff in Hp; destruct Hp as [_ Hs']; apply N.ltb_lt in Hs'.
+        -- eapply newest_max; [exact E0|exact He'|]. apply matches_iff. auto.
+        -- specialize (Hnew e e' Hin He'). lia.
+      * pose proof (newest_some _ _ _ _ Hgv) as [Hin M].
+        apply matches_iff in M. destruct M as [_ Hs].
+        split; [now apply HLc|]. split; [exact Hnt|].
+        intros e' He' Ek. apply HL in He'.
+        destruct He' as [He'|He']; apply filter_In in He'; destruct He' as [He' Hp];
+          apply andb_true_iff in Hp; destruct Hp as [_ Hs']; apply N.ltb_lt in Hs'.
+        -- exfalso. rewrite newest_none in E0. specialize (E0 e' He').
+           assert (M : matches (ukey e) so e' = true) by (apply matches_iff; auto).
+           congruence.
+        -- eapply newest_max; [exact Hgv|exact He'|]. apply matches_iff. auto.
+Qed.
+
+
+(** * 11. Tables and runs under the invariant; run culling loses nothing *)
+
+Lemma table_ok_facts t : table_ok t = true ->
+  StronglySorted ikey_lt (ents t) /\ ents t <> [] /\
+  forall e, In e (ents t) -> key_le (kmin t) (ukey e) /\ key_le (ukey e) (kmax t).
+Proof.
+  unfold table_ok, table_meta_ok. intros H. apply andb_true_iff in H. destruct H as [Hs Hm].
+  apply rg_sorted_SS in Hs. split; [exact Hs|].
+  destruct (ents t) as [|e0 rest] eqn:Ee; [discriminate|]. split; [discriminate|].
+  do 5 (apply andb_true_iff in Hm; destruct Hm as [Hm _]).
+  apply andb_true_iff in Hm. destruct Hm as [Hmin Hmax]. key_prop.
+  rewrite Hmin, Hmax. intros e He. split.
+  - destruct He as [<-|He]; [apply key_le_refl|].
+    inversion Hs as [|? ? _ HF]; subst. rewrite Forall_forall in HF.
+    apply rg_ikey_lt_key_le. auto.
+  - destruct (rg_snoc_cases (e0 :: rest)) as [E|(l' & z & E)]; [discriminate|].
+    rewrite E in *. rewrite last_last.
+    apply in_app_or in He. destruct He as [He|[<-|[]]]; [|apply key_le_refl].
+    apply rg_SS_app_inv in Hs. destruct Hs as (_ & _ & HF).
+    apply rg_ikey_lt_key_le. apply HF; [exact He|left; reflexivity].
+Qed.
+
+Lemma table_ok_minmax t : table_ok t = true -> key_le (kmin t) (kmax t).
+Proof.
+  intros H. destruct (table_ok_facts t H) as (_ & Hne & Hb).
+  destruct (ents t) as [|e0 rest]; [congruence|].
+  destruct (Hb e0 (or_introl eq_refl)). eapply key_le_trans; eauto.
+Qed.
+
+(** table [t] lies entirely before table [t'] *)
+Definition tlt (t t' : table) : Prop := key_lt (kmax t) (kmin t').
+
+Lemma run_ok_facts r : run_ok r = true ->
+  Forall (fun t => table_ok t = true) r /\ StronglySorted tlt r.
+Proof.
+  unfold run_ok. destruct r as [|t0 r0]; [discriminate|].
+  intros H. apply andb_true_iff in H. destruct H as [Hf Hd].
+  assert (HF : Forall (fun t => table_ok t = true) (t0 :: r0)).
+  { rewrite Forall_forall. now apply forallb_forall. }
+  split; [exact HF|]. clear Hf. revert HF Hd. generalize (t0 :: r0). clear.
+  induction l as [|t r IH]; intros HF Hd; [constructor|].
+  inversion HF as [|? ? Ht HF']; subst.
+  destruct r as [|t' r]; [repeat constructor|].
+  cbn [run_disjoint_b] in Hd. apply andb_true_iff in Hd. destruct Hd as [Hlt Hd]. key_prop.
+  specialize (IH HF' Hd). constructor; [exact IH|].
+  inversion IH as [|? ? _ HFt]; subst. inversion HF' as [|? ? Ht' _]; subst.
+  constructor; [exact Hlt|]. rewrite Forall_forall in *. intros t'' Hin.
+  unfold tlt in *. eapply key_lt_trans; [exact Hlt|].
+  eapply key_le_lt_trans; [apply table_ok_minmax; exact Ht'|auto].
+Qed.
+
+Lemma tlt_entries t t' e e' :
+  table_ok t = true -> table_ok t' = true -> tlt t t' ->
+  In e (ents t) -> In e' (ents t') -> ikey_lt e e'.
+Proof.
+  intros Ht Ht' Hlt He He'.
+  destruct (table_ok_facts t Ht) as (_ & _ & Hb). destruct (table_ok_facts t' Ht') as (_ & _ & Hb').
+  unfold ikey_lt. apply rg_ikey_ltb_iff. left.
+  eapply key_le_lt_trans; [apply (Hb e He)|].
+  eapply key_lt_le_trans; [exact Hlt|apply (Hb' e' He')].
+Qed.
+
+Lemma run_concat_sorted r :
+  Forall (fun t => table_ok t = true) r -> StronglySorted tlt r ->
+  StronglySorted ikey_lt (concat (map ents r)).
+Proof.
+  intros HF HS. induction HS as [|t r HS IH Hlt]; [constructor|].
+  inversion HF as [|? ? Ht HF']; subst. cbn [map concat].
+  apply rg_SS_app; [apply (table_ok_facts t Ht)|now apply IH|].
+  intros x y Hx Hy. apply in_concat in Hy. destruct Hy as (l & Hl & Hy).
+  apply in_map_iff in Hl. destruct Hl as (t' & <- & Ht'in).
+  rewrite Forall_forall in Hlt, HF'. apply (tlt_entries t t' x y); auto.
+Qed.
+
+(** ** partition_point *)
+
+Lemma pp_le {A} (p : A -> bool) l : (partition_point p l <= length l)%nat.
+Proof. induction l as [|x l IH]; cbn; [lia|]. destruct (p x); cbn; lia. Qed.
+
+Lemma pp_firstn {A} (p : A -> bool) l :
+  Forall (fun x => p x = true) (firstn (partition_point p l) l).
+Proof.
+  induction l as [|x l IH]; cbn; [constructor|].
+  destruct (p x) eqn:E; cbn; [constructor; assumption|constructor].
+Qed.
+
+Lemma pp_skipn {A} (p : A -> bool) l :
+  match skipn (partition_point p l) l with [] => True | x :: _ => p x = false end.
+Proof.
+  induction l as [|x l IH]; cbn; [exact I|].
+  destruct (p x) eqn:E; cbn; [exact IH|exact E].
+Qed.
+
+Lemma pp_all {A} (p : A -> bool) l : (forall x, p x = true) -> partition_point p l = length l.
+Proof. intros H. induction l as [|x l IH]; cbn; [reflexivity|]. now rewrite H, IH. Qed.
+
+Lemma pp_none {A} (p : A -> bool) l : (forall x, p x = false) -> partition_point p l = O.
+Proof. intros H. destruct l as [|x l]; cbn; [reflexivity|]. now rewrite H. Qed.
+
+(** the two partition predicates of range_overlap_indexes, uniformly in the bound kind *)
+Definition plo (lo : bound) (t : table) : bool :=
+  match lo with Unb => false | Incl k => key_ltb (kmax t) k | Excl k => key_leb (kmax t) k end.
+Definition qhi (hi : bound) (t : table) : bool :=
+  match hi with Unb => true | Incl k => key_leb (kmin t) k | Excl k => key_ltb (kmin t) k end.
+
+Lemma roi_uniform r lo hi :
+  range_overlap_indexes r lo hi =
+  let i := partition_point (plo lo) r in
+  if Nat.leb (length r) i then None
+  else
+    let idx := (i + partition_point (qhi hi) (skipn i r))%nat in
+    if Nat.eqb idx 0 then None
+    else if Nat.ltb (idx - 1) i then None else Some (i, (idx - 1)%nat).
+Proof.
+  unfold range_overlap_indexes.
+  assert (Ei : match lo with
+               | Incl k => partition_point (fun t => key_ltb (kmax t) k) r
+               | Excl k => partition_point (fun t => key_leb (kmax t) k) r
+               | Unb => O
+               end = partition_point (plo lo) r).
+  { destruct lo; cbn [plo]; try reflexivity. symmetry. now apply pp_none. }
+  rewrite Ei. cbv zeta. set (i := partition_point (plo lo) r).
+  destruct (Nat.leb (length r) i) eqn:El; [reflexivity|]. apply Nat.leb_gt in El.
+  destruct hi as [k|k|].
+  - change (qhi (Incl k)) with (fun t => key_leb (kmin t) k).
+    destruct (Nat.eqb _ 0); reflexivity.
+  - change (qhi (Excl k)) with (fun t => key_ltb (kmin t) k).
+    destruct (Nat.eqb _ 0); reflexivity.
+  - rewrite (pp_all (qhi Unb)) by reflexivity. rewrite skipn_length.
+    replace (i + (length r - i))%nat with (length r) by lia.
+    destruct (Nat.eqb_spec (length r) 0); [lia|]. reflexivity.
+Qed.
+
+Lemma roi_decomp r lo hi :
+  exists pre win post, r = pre ++ win ++ post
+    /\ Forall (fun t => plo lo t = true) pre
+    /\ match win ++ post with [] => True | t :: _ => plo lo t = false end
+    /\ Forall (fun t => qhi hi t = true) win
+    /\ match post with [] => True | t :: _ => qhi hi t = false end
+    /\ range_overlap_indexes r lo hi =
+       match win with
+       | [] => None
+       | _ => Some (length pre, (length pre + length win - 1)%nat)
+       end.
+Proof.
+  rewrite roi_uniform. cbv zeta.
+  set (i := partition_point (plo lo) r). set (rest := skipn i r).
+  set (n2 := partition_point (qhi hi) rest).
+  exists (firstn i r), (firstn n2 rest), (skipn n2 rest).
+  assert (Hi : (i <= length r)%nat) by apply pp_le.
+  assert (Hn2 : (n2 <= length rest)%nat) by apply pp_le.
+  assert (Hlr : length rest = (length r - i)%nat) by apply skipn_length.
+  rewrite (firstn_skipn n2 rest). split; [symmetry; apply firstn_skipn|].
+  split; [apply pp_firstn|]. split; [apply pp_skipn|]. split; [apply pp_firstn|].
+  split; [apply pp_skipn|].
+  rewrite (firstn_length_le r Hi).
+  assert (Hlw : length (firstn n2 rest) = n2) by (now apply firstn_length_le).
+  destruct (Nat.leb_spec (length r) i) as [Hle|Hgt].
+  - assert (n2 = O) by lia. rewrite H. reflexivity.
+  - destruct (Nat.eqb_spec (i + n2) 0) as [E0|E0].
+    + assert (n2 = O) by lia. rewrite H. reflexivity.
+    + destruct (Nat.ltb_spec (i + n2 - 1) i) as [Hlt|Hge].
+      * assert (n2 = O) by lia. rewrite H. reflexivity.
+      * destruct (firstn n2 rest) as [|w0 w'] eqn:Ew; [cbn in Hlw; lia|].
+        rewrite Hlw. reflexivity.
+Qed.
+
+(** ** entries outside / inside the bounds, table-wise *)
+
+Lemma tbl_lo_out lo t : table_ok t = true -> plo lo t = true ->
+  forall e, In e (ents t) -> lo_ok lo (ukey e) = false.
+Proof.
+  intros Ht Hp e He. destruct (table_ok_facts t Ht) as (_ & _ & Hb).
+  destruct (Hb e He) as [_ Hmax]. destruct lo as [k|k|]; cbn [plo lo_ok] in *; [| |discriminate].
+  - key_prop. eapply key_le_lt_trans; eauto.
+  - key_prop. eapply key_le_trans; eauto.
+Qed.
+
+Lemma tbl_hi_out hi t : table_ok t = true -> qhi hi t = false ->
+  forall e, In e (ents t) -> hi_ok hi (ukey e) = false.
+Proof.
+  intros Ht Hq e He. destruct (table_ok_facts t Ht) as (_ & _ & Hb).
+  destruct (Hb e He) as [Hmin _]. destruct hi as [k|k|]; cbn [qhi hi_ok] in *; [| |discriminate].
+  - key_prop. eapply key_lt_le_trans; eauto.
+  - key_prop. eapply key_le_trans; eauto.
+Qed.
+
+Lemma tbl_lo_in lo t0 t : table_ok t = true -> plo lo t0 = false -> tlt t0 t ->
+  forall e, In e (ents t) -> lo_ok lo (ukey e) = true.
+Proof.
+  intros Ht Hp Hlt e He. destruct (table_ok_facts t Ht) as (_ & _ & Hb).
+  destruct (Hb e He) as [Hmin _]. unfold tlt in Hlt.
+  destruct lo as [k|k|]; cbn [plo lo_ok] in *; [| |reflexivity].
+  - key_prop. apply key_lt_le. eapply key_le_lt_trans; [exact Hp|].
+    eapply key_lt_le_trans; eauto.
+  - key_prop. eapply key_lt_trans; [exact Hp|]. eapply key_lt_le_trans; eauto.
+Qed.
+
+Lemma tbl_hi_in hi t1 t : table_ok t = true -> qhi hi t1 = true -> tlt t t1 ->
+  forall e, In e (ents t) -> hi_ok hi (ukey e) = true.
+Proof.
+  intros Ht Hq Hlt e He. destruct (table_ok_facts t Ht) as (_ & _ & Hb).
+  destruct (Hb e He) as [_ Hmax]. unfold tlt in Hlt.
+  destruct hi as [k|k|]; cbn [qhi hi_ok] in *; [| |reflexivity].
+  - key_prop. apply key_lt_le. eapply key_le_lt_trans; [exact Hmax|].
+    eapply key_lt_le_trans; eauto.
+  - key_prop. eapply key_le_lt_trans; [exact Hmax|]. eapply key_lt_trans; eauto.
+Qed.
+
+Lemma qhi_mono hi t t' : key_le (kmin t) (kmin t') -> qhi hi t = false -> qhi hi t' = false.
+Proof.
+  intros Hle Hq. destruct hi as [k|k|]; cbn [qhi] in *; [| |discriminate]; key_prop.
+  - eapply key_lt_le_trans; eauto.
+  - eapply key_le_trans; eauto.
+Qed.
+
+Definition fQ (lo hi : bound) (ts : list table) : list entry :=
+  filter (fun e => in_bounds lo hi (ukey e)) (concat (map ents ts)).
+
+Lemma fQ_app lo hi a b : fQ lo hi (a ++ b) = fQ lo hi a ++ fQ lo hi b.
+Proof. unfold fQ. now rewrite map_app, concat_app, filter_app. Qed.
+
+Lemma fQ_cons lo hi t ts : fQ lo hi (t :: ts) = table_range t lo hi ++ fQ lo hi ts.
+Proof. unfold fQ, table_range. cbn [map concat]. now rewrite filter_app. Qed.
+
+Lemma rg_filter_nil {A} (p : A -> bool) l : (forall x, In x l -> p x = false) -> filter p l = [].
+Proof.
+  induction l as [|x l IH]; intros H; [reflexivity|]. cbn [filter].
+  rewrite (H x (or_introl eq_refl)). apply IH. intros y Hy. apply H. right. exact Hy.
+Qed.
+
+Lemma rg_filter_all {A} (p : A -> bool) l : (forall x, In x l -> p x = true) -> filter p l = l.
+Proof.
+  induction l as [|x l IH]; intros H; [reflexivity|]. cbn [filter].
+  rewrite (H x (or_introl eq_refl)). f_equal. apply IH. intros y Hy. apply H. right. exact Hy.
+Qed.
+
+Lemma fQ_nil lo hi ts :
+  (forall t e, In t ts -> In e (ents t) -> in_bounds lo hi (ukey e) = false) -> fQ lo hi ts = [].
+Proof.
+  intros H. unfold fQ. apply rg_filter_nil. intros e He.
+  apply in_concat in He. destruct He as (l & Hl & He). apply in_map_iff in Hl.
+  destruct Hl as (t & <- & Ht). eauto.
+Qed.
+
+Lemma fQ_all lo hi ts :
+  (forall t e, In t ts -> In e (ents t) -> in_bounds lo hi (ukey e) = true) ->
+  fQ lo hi ts = concat (map ents ts).
+Proof.
+  intros H. unfold fQ. apply rg_filter_all. intros e He.
+  apply in_concat in He. destruct He as (l & Hl & He). apply in_map_iff in Hl.
+  destruct Hl as (t & <- & Ht). eauto.
+Qed.
+
+Lemma rg_skipn_app_length {A} (a b : list A) : skipn (length a) (a ++ b) = b.
+Proof. induction a as [|x a IH]; [reflexivity|exact IH]. Qed.
+
+Lemma rg_firstn_app_length {A} (a b : list A) : firstn (length a) (a ++ b) = a.
+Proof. induction a as [|x a IH]; [reflexivity|]. cbn. now rewrite IH. Qed.
+
+Lemma rg_nth_error_app_length {A} (a b : list A) x : nth_error (a ++ x :: b) (length a) = Some x.
+Proof. induction a as [|y a IH]; [reflexivity|exact IH]. Qed.
+
+Definition olist (o : option (list entry)) : list entry :=
+  match o with Some l => l | None => [] end.
+
+(** (iii) RunReader yields exactly the in-bounds entries of the run: the culled window
+    loses nothing, and the unbounded inner tables add nothing out of bounds *)
+Lemma run_reader_items_exact r lo hi :
+  Forall (fun t => table_ok t = true) r -> StronglySorted tlt r ->
+  olist (run_reader_items r lo hi) = fQ lo hi r.
+Proof.
+  intros HF HS. unfold run_reader_items.
+  destruct (roi_decomp r lo hi) as (pre & win & post & Er & Hpre & Hhd & Hwin & Hpost & Eroi).
+  rewrite Eroi. subst r.
+  apply rg_SS_app_inv in HS. destruct HS as (_ & HS & _).
+  apply rg_SS_app_inv in HS. destruct HS as (HSw & HSp & Hwp).
+  apply Forall_app in HF. destruct HF as [HFpre HF]. apply Forall_app in HF. destruct HF as [HFw HFp].
+  rewrite Forall_forall in HFpre, HFw, HFp, Hpre, Hwin.
+  rewrite !fQ_app.
+  assert (Epre : fQ lo hi pre = []).
+  { apply fQ_nil. intros t e Ht He. unfold in_bounds.
+    rewrite (tbl_lo_out lo t (HFpre t Ht) (Hpre t Ht) e He). reflexivity. }
+  assert (Epost : fQ lo hi post = []).
+  { apply fQ_nil. intros t e Ht He. unfold in_bounds.
+    destruct post as [|p0 post']; [contradiction|].
+    assert (Hq : qhi hi t = false).
+    { destruct Ht as [<-|Ht]; [exact Hpost|]. apply (qhi_mono hi p0 t); [|exact Hpost].
+      inversion HSp as [|? ? _ HFp0]; subst. rewrite Forall_forall in HFp0.
+      specialize (HFp0 t Ht). unfold tlt in HFp0. apply key_lt_le.
+      eapply key_le_lt_trans; [apply table_ok_minmax; apply HFp; left; reflexivity|exact HFp0]. }
+    rewrite (tbl_hi_out hi t (HFp t Ht) Hq e He). apply andb_false_r. }
+  rewrite Epre, Epost, app_nil_r. cbn [app].
+  destruct win as [|w0 w']; [reflexivity|].
+  cbn [olist]. unfold tbl_range_at. cbn [app] in Hhd |- *.
+  rewrite (rg_nth_error_app_length pre (w' ++ post) w0).
+  rewrite fQ_cons. f_equal.
+  cbn [length]. replace (length pre + S (length w') - 1)%nat with (length pre + length w')%nat by lia.
+  destruct (rg_snoc_cases w') as [->|(mids & wl & ->)].
+  - cbn [length]. rewrite Nat.add_0_r, Nat.ltb_irrefl. reflexivity.
+  - rewrite app_length. cbn [length].
+    destruct (Nat.ltb_spec (length pre) (length pre + (length mids + 1))); [|lia].
+    assert (Emid : mid_tables (pre ++ w0 :: (mids ++ [wl]) ++ post) (length pre)
+                              (length pre + (length mids + 1)) = mids).
+    { unfold mid_tables.
+      replace (pre ++ w0 :: (mids ++ [wl]) ++ post) with ((pre ++ [w0]) ++ mids ++ [wl] ++ post)
+        by (rewrite <- !app_assoc; reflexivity).
+      replace (S (length pre)) with (length (pre ++ [w0])) by (rewrite app_length; cbn; lia).
+      rewrite rg_skipn_app_length.
+      replace (length pre + (length mids + 1) - length pre - 1)%nat with (length mids) by lia.
+      apply rg_firstn_app_length. }
+    rewrite Emid.
+    assert (Elast : nth_error (pre ++ w0 :: (mids ++ [wl]) ++ post)
+                              (length pre + (length mids + 1)) = Some wl).
+    { assert (E : pre ++ w0 :: (mids ++ [wl]) ++ post = (pre ++ w0 :: mids) ++ wl :: post).
+      { rewrite <- !app_assoc. cbn [app]. reflexivity. }
+      rewrite E.
+      assert (E' : (length pre + (length mids + 1))%nat = length (pre ++ w0 :: mids)).
+      { rewrite app_length. cbn [length]. lia. }
+      rewrite E'. apply rg_nth_error_app_length. }
+    rewrite Elast. rewrite fQ_app, fQ_cons. unfold fQ at 2. cbn [map concat filter].
+    rewrite app_nil_r. f_equal.
+    symmetry. apply fQ_all. intros t e Ht He. unfold in_bounds.
+    inversion HSw as [|? ? HSw' HFw0]; subst. rewrite Forall_forall in HFw0.
+    apply rg_SS_app_inv in HSw'. destruct HSw' as (_ & _ & Hml).
+    assert (Htw : In t (w0 :: mids ++ [wl])) by (right; apply in_or_app; left; exact Ht).
+    rewrite (tbl_lo_in lo w0 t (HFw t Htw) Hhd) ; [| apply HFw0; apply in_or_app; left; exact Ht | exact He].
+    rewrite (tbl_hi_in hi wl t (HFw t Htw)); [reflexivity| | |exact He].
+    + apply Hwin. right. apply in_or_app. right. left. reflexivity.
+    + apply Hml; [exact Ht|left; reflexivity].
+Qed.
+
+Lemma kr_overlaps_eq t lo hi :
+  kr_overlaps (kmin t) (kmax t) lo hi = negb (plo lo t) && qhi hi t.
+Proof.
+  unfold kr_overlaps.
+  destruct lo as [a|a|], hi as [b|b|]; cbn [plo qhi negb andb];
+    rewrite ?key_leb_ltb, ?negb_involutive, ?andb_true_r; reflexivity.
+Qed.
+
+Lemma rg_filter_and {A} (p q : A -> bool) l :
+  filter (fun x => p x && q x) l = filter q (filter p l).
+Proof.
+  induction l as [|x l IH]; [reflexivity|]. cbn [filter].
+  destruct (p x); cbn [andb filter]; [destruct (q x)|]; now rewrite IH.
+Qed.
+
+(** the visibility predicate of a scan: inside the user-key bounds and below the snapshot *)
+Definition PS (lo hi : bound) (S : N) (e : entry) : bool :=
+  in_bounds lo hi (ukey e) && (seq e <? S).
+
+Lemma run_source_exact r lo hi S : run_ok r = true ->
+  olist (run_source r lo hi S) = filter (PS lo hi S) (concat (map ents r)).
+Proof.
+  intros Hok. destruct (run_ok_facts r Hok) as [HF HS].
+  unfold PS. rewrite rg_filter_and. fold (fQ lo hi r).
+  rewrite <- (run_reader_items_exact r lo hi HF HS).
+  unfold run_source, sfilter, seqno_filter.
+  destruct r as [|t [|t' r']]; [discriminate| |].
+  - rewrite kr_overlaps_eq. inversion HF as [|? ? Ht _]; subst.
+    rewrite (run_reader_items_exact [t] lo hi HF HS). rewrite fQ_cons. unfold fQ. cbn [map concat filter].
+    rewrite app_nil_r.
+    destruct (plo lo t) eqn:Ep; cbn [negb andb olist].
+    + unfold table_range. rewrite (rg_filter_nil _ (ents t)); [reflexivity|].
+      intros e He. unfold in_bounds. now rewrite (tbl_lo_out lo t Ht Ep e He).
+    + destruct (qhi hi t) eqn:Eq; cbn [olist]; [reflexivity|].
+      unfold table_range. rewrite (rg_filter_nil _ (ents t)); [reflexivity|].
+      intros e He. unfold in_bounds. rewrite (tbl_hi_out hi t Ht Eq e He). apply andb_false_r.
+  - destruct (run_reader_items (t :: t' :: r') lo hi); reflexivity.
+Qed.
+
+
+(** * 12. The superversion invariant: sorted containers, pairwise distinct InternalKeys *)
+
+Lemma inv_unpack sv : check_inv_sv sv = true ->
+  sorted_b (ments (active sv)) = true
+  /\ (forall m, In m (sealed sv) -> sorted_b (ments m) = true)
+  /\ (forall r, In r (all_runs (ver sv)) -> run_ok r = true)
+  /\ recency_b (containers sv) = true.
+Proof.
+  unfold check_inv_sv. intros H.
+  apply andb_true_iff in H. destruct H as [H Hrec].
+  apply andb_true_iff in H. destruct H as [H _].
+  apply andb_true_iff in H. destruct H as [H Hruns].
+  apply andb_true_iff in H. destruct H as [H _].
+  apply andb_true_iff in H. destruct H as [Ha Hs].
+  repeat split; auto.
+  - intros m Hm. rewrite forallb_forall in Hs. auto.
+  - intros r Hr. rewrite forallb_forall in Hruns. auto.
+Qed.
+
+Lemma inv_table_ok sv t : check_inv_sv sv = true -> In t (all_tables (ver sv)) -> table_ok t = true.
+Proof.
+  intros H Ht. destruct (inv_unpack sv H) as (_ & _ & Hruns & _).
+  unfold all_tables in Ht. apply in_concat in Ht. destruct Ht as (r & Hr & Ht).
+  destruct (run_ok_facts r (Hruns r Hr)) as [HF _]. rewrite Forall_forall in HF. auto.
+Qed.
+
+Lemma inv_containers_sorted sv : check_inv_sv sv = true ->
+  Forall (StronglySorted ikey_lt) (containers sv).
+Proof.
+  intros H. destruct (inv_unpack sv H) as (Ha & Hs & _ & _).
+  unfold containers. constructor; [now apply rg_sorted_SS|].
+  apply Forall_app. split; rewrite Forall_forall; intros l Hl; apply in_map_iff in Hl;
+    destruct Hl as (x & <- & Hx).
+  - apply rg_sorted_SS. apply Hs. now apply in_rev.
+  - apply (table_ok_facts x). eapply inv_table_ok; eauto.
+Qed.
+
+Lemma recency_dcmp cs :
+  Forall (StronglySorted ikey_lt) cs -> recency_b cs = true -> dcmp (concat cs).
+Proof.
+  induction 1 as [|c cs Hc HF IH]; intros Hr; [split; [constructor|contradiction]|].
+  cbn [recency_b] in Hr. apply andb_true_iff in Hr. destruct Hr as [Hn Hr].
+  cbn [concat]. apply dcmp_app; [now apply dcmp_sorted|now apply IH|].
+  intros x y Hx Hy. apply in_concat in Hy. destruct Hy as (c' & Hc' & Hy).
+  rewrite forallb_forall in Hn. specialize (Hn c' Hc'). unfold newer_than in Hn.
+  rewrite forallb_forall in Hn. specialize (Hn x Hx).
+  rewrite forallb_forall in Hn. specialize (Hn y Hy).
+  apply cmp_of_newer. intros Ek. apply orb_true_iff in Hn. destruct Hn as [Hn|Hn].
+  - apply negb_true_iff in Hn. key_prop. contradiction.
+  - now apply N.ltb_lt.
+Qed.
+
+Lemma inv_dcmp sv : check_inv_sv sv = true -> dcmp (content sv).
+Proof.
+  intros H. apply recency_dcmp; [now apply inv_containers_sorted|].
+  now destruct (inv_unpack sv H) as (_ & _ & _ & Hr).
+Qed.
+
+(** * 13. The sources of a scan *)
+
+Lemma mt_source_eq l lo hi S :
+  (forall e, In e l -> seq e <= MAX_SEQNO) ->
+  sfilter S (mt_range l lo hi) = filter (PS lo hi S) l.
+Proof.
+  intros Hs. unfold sfilter, mt_range, seqno_filter, PS. rewrite <- rg_filter_and.
+  apply filter_ext_in. intros e He. now rewrite bounds_widening by auto.
+Qed.
+
+Lemma mt_source_sorted l lo hi S :
+  sorted_b l = true -> StronglySorted ikey_lt (sfilter S (mt_range l lo hi)).
+Proof. intros H. unfold sfilter, mt_range. now apply rg_SS_filter, rg_SS_filter, rg_sorted_SS. Qed.
+
+Definition run_srcs (lo hi : bound) (S : N) (rs : list run) : list (list entry) :=
+  flat_map (fun r => match run_source r lo hi S with Some l => [l] | None => [] end) rs.
+
+Lemma run_srcs_concat lo hi S rs :
+  (forall r, In r rs -> run_ok r = true) ->
+  concat (run_srcs lo hi S rs) = filter (PS lo hi S) (concat (map ents (concat rs))).
+Proof.
+  induction rs as [|r rs IH]; intros Hok; [reflexivity|].
+  unfold run_srcs in *. cbn [flat_map concat]. rewrite concat_app, map_app, concat_app, filter_app.
+  rewrite IH by (intros r' Hr'; apply Hok; right; exact Hr').
+  f_equal. rewrite <- (run_source_exact r lo hi S) by (apply Hok; left; reflexivity).
+  destruct (run_source r lo hi S); cbn [concat olist]; [apply app_nil_r|reflexivity].
+Qed.
+
+Lemma run_srcs_sorted lo hi S rs :
+  (forall r, In r rs -> run_ok r = true) ->
+  Forall (StronglySorted ikey_lt) (run_srcs lo hi S rs).
+Proof.
+  intros Hok. unfold run_srcs. rewrite Forall_forall. intros l Hl.
+  apply in_flat_map in Hl. destruct Hl as (r & Hr & Hl).
+  pose proof (run_source_exact r lo hi S (Hok r Hr)) as E.
+  destruct (run_source r lo hi S) as [l'|]; [|contradiction].
+  destruct Hl as [<-|[]]. cbn [olist] in E. rewrite E. apply rg_SS_filter.
+  destruct (run_ok_facts r (Hok r Hr)). now apply run_concat_sorted.
+Qed.
+
+Lemma rg_filter_concat_map {A B} (p : B -> bool) (f : A -> list B) l :
+  filter p (concat (map f l)) = concat (map (fun x => filter p (f x)) l).
+Proof.
+  induction l as [|x l IH]; [reflexivity|]. cbn [map concat]. now rewrite filter_app, IH.
+Qed.
+
+Lemma rg_perm_concat_rev {A B} (f : A -> list B) l :
+  Permutation (concat (map f (rev l))) (concat (map f l)).
+Proof.
+  induction l as [|x l IH]; [apply Permutation_refl|].
+  cbn [rev map concat]. rewrite map_app, concat_app. cbn [map concat]. rewrite app_nil_r.
+  eapply perm_trans; [apply Permutation_app_comm|]. now apply Permutation_app_head.
+Qed.
+
+(** the overlay part of a scan: (entries, its snapshot seqno) *)
+Definition eph_ov (eph : option (memtable * N)) : list entry * N :=
+  match eph with Some (m, so) => (ments m, so) | None => ([], 0) end.
+
+Definition eph_ok (sv : superversion) (eph : option (memtable * N)) : Prop :=
+  match eph with
+  | None => True
+  | Some (m, so) =>
+      sorted_b (ments m) = true
+      /\ (forall e, In e (ments m) -> seq e < MAX_SEQNO)
+      /\ (forall x y, In x (ments m) -> In y (content sv) -> seq y < seq x)
+  end.
+
+Lemma range_sources_perm sv eph lo hi S :
+  check_inv_sv sv = true -> (forall e, In e (content sv) -> seq e < MAX_SEQNO) ->
+  eph_ok sv eph ->
+  Permutation (concat (range_sources sv eph lo hi S))
+    (filter (PS lo hi (snd (eph_ov eph))) (fst (eph_ov eph)) ++ filter (PS lo hi S) (content sv)).
+Proof.
+  intros Hinv Hmax Heph. destruct (inv_unpack sv Hinv) as (_ & _ & Hruns & _).
+  unfold range_sources. fold (run_srcs lo hi S (all_runs (ver sv))).
+  rewrite !concat_app, (run_srcs_concat lo hi S _ Hruns).
+  fold (all_tables (ver sv)).
+  assert (Hc : forall l, In l (containers sv) -> forall e, In e l -> seq e <= MAX_SEQNO).
+  { intros l Hl e He. apply N.lt_le_incl. apply Hmax. unfold content. apply in_concat. eauto. }
+  assert (Ea : sfilter S (mt_range (ments (active sv)) lo hi) = filter (PS lo hi S) (ments (active sv))).
+  { apply mt_source_eq. apply Hc. left. reflexivity. }
+  assert (Es : map (fun m => sfilter S (mt_range (ments m) lo hi)) (sealed sv)
+               = map (fun m => filter (PS lo hi S) (ments m)) (sealed sv)).
+  { apply map_ext_in. intros m Hm. apply mt_source_eq. apply Hc. right.
+    apply in_or_app. left. apply in_map. now apply in_rev in Hm. }
+  rewrite Es. cbn [concat]. rewrite Ea, app_nil_r.
+  assert (Eo : concat match eph with
+                      | Some (m, s) => [sfilter s (mt_range (ments m) lo hi)]
+                      | None => []
+                      end = filter (PS lo hi (snd (eph_ov eph))) (fst (eph_ov eph))).
+  { destruct eph as [[m so]|]; [|reflexivity]. cbn [concat eph_ov fst snd]. rewrite app_nil_r.
+    apply mt_source_eq. intros e He. apply N.lt_le_incl. now apply Heph. }
+  rewrite Eo. unfold content, containers. cbn [concat].
+  rewrite concat_app, !filter_app.
+  set (T := filter (PS lo hi S) (concat (map ents (all_tables (ver sv))))).
+  set (A := filter (PS lo hi S) (ments (active sv))).
+  set (O := filter (PS lo hi (snd (eph_ov eph))) (fst (eph_ov eph))).
+  rewrite rg_filter_concat_map.
+  set (Sd := concat (map (fun m => filter (PS lo hi S) (ments m)) (sealed sv))).
+  set (Sd' := concat (map (fun m => filter (PS lo hi S) (ments m)) (rev (sealed sv)))).
+  assert (HSd : Permutation Sd Sd') by (apply Permutation_sym; apply rg_perm_concat_rev).
+  eapply perm_trans; [apply Permutation_app_comm|].
+  rewrite (app_assoc O), (app_assoc (O ++ A)). apply Permutation_app_tail.
+  eapply perm_trans; [apply Permutation_app_comm|].
+  apply Permutation_app; [apply Permutation_app_comm|exact HSd].
+Qed.
+
+Lemma range_sources_sorted sv eph lo hi S :
+  check_inv_sv sv = true -> eph_ok sv eph ->
+  Forall (StronglySorted ikey_lt) (range_sources sv eph lo hi S).
+Proof.
+  intros Hinv Heph. destruct (inv_unpack sv Hinv) as (Ha & Hs & Hruns & _).
+  unfold range_sources. fold (run_srcs lo hi S (all_runs (ver sv))).
+  apply Forall_app. split; [now apply run_srcs_sorted|].
+  apply Forall_app. split.
+  - rewrite Forall_forall. intros l Hl. apply in_map_iff in Hl. destruct Hl as (m & <- & Hm).
+    apply mt_source_sorted. auto.
+  - constructor; [now apply mt_source_sorted|].
+    destruct eph as [[m so]|]; [|constructor].
+    constructor; [|constructor]. apply mt_source_sorted. apply Heph.
+Qed.
+
+(** * 14. Main theorems *)
+
+(** general form: any interleaving of next / next_back over a superversion with an
+    optional overlay memtable yields, from either end, the Spec's per-key answers *)
+Theorem range_exact_gen sv eph lo hi S ps :
+  check_inv_sv sv = true ->
+  (forall e, In e (content sv) -> seq e < MAX_SEQNO) ->
+  eph_ok sv eph ->
+  sv_range_run sv eph lo hi S ps =
+  deque_run (spec_list (overlay_get (fst (eph_ov eph)) (content sv) (snd (eph_ov eph)) S)
+                       lo hi (keys_of (fst (eph_ov eph) ++ content sv))) ps.
+Proof.
+  intros Hinv Hmax Heph.
+  set (ov := fst (eph_ov eph)). set (so := snd (eph_ov eph)).
+  pose proof (range_sources_perm sv eph lo hi S Hinv Hmax Heph) as HP.
+  fold ov so in HP.
+  pose proof (range_sources_sorted sv eph lo hi S Hinv Heph) as HSs.
+  pose proof (inv_dcmp sv Hinv) as Dc.
+  assert (Dov : dcmp ov).
+  { subst ov. destruct eph as [[m s]|]; cbn [eph_ov fst].
+    - apply dcmp_sorted. apply rg_sorted_SS. apply Heph.
+    - split; [constructor|contradiction]. }
+  assert (Hnew : forall x y, In x ov -> In y (content sv) -> seq y < seq x).
+  { subst ov. destruct eph as [[m s]|]; cbn [eph_ov fst]; [apply Heph|contradiction]. }
+  assert (Dall : dcmp (concat (range_sources sv eph lo hi S))).
+  { eapply dcmp_perm; [apply Permutation_sym; exact HP|].
+    apply dcmp_app; [now apply dcmp_filter|now apply dcmp_filter|].
+    intros x y Hx Hy. apply filter_In in Hx, Hy. apply cmp_of_newer. intros _.
+    apply Hnew; tauto. }
+  destruct (rg_isort_spec _ Dall) as [HSL HPL].
+  set (L := rg_isort (concat (range_sources sv eph lo hi S))) in *.
+  unfold sv_range_run, tree_iter_new, range_fuel.
+  rewrite (pipeline_deque _ L _ ps HSs HSL HPL)
+    by (rewrite (Permutation_length HPL); lia).
+  f_equal. apply scan_equals_spec; auto using dcmp_uniq.
+  intros e. unfold PS in HP. split.
+  - intros He. eapply Permutation_in in He; [|exact HPL].
+    eapply Permutation_in in He; [|exact HP]. now apply in_app_or in He.
+  - intros He. eapply Permutation_in; [apply Permutation_sym; exact HPL|].
+    eapply Permutation_in; [apply Permutation_sym; exact HP|]. now apply in_or_app.
+Qed.
+
+(** MAIN: without overlay, any interleaving of next / next_back yields exactly the live
+    pairs of the ordered-map Spec inside the bounds, each once, ascending from the front
+    and descending from the back *)
+Theorem range_exact : forall sv lo hi S ps, check_inv_sv sv = true ->
+  (forall e, In e (content sv) -> seq e < MAX_SEQNO) ->
+  sv_range_run sv None lo hi S ps = deque_run (spec_range (content sv) lo hi S) ps.
+Proof.
+  intros sv lo hi S ps Hinv Hmax.
+  rewrite (range_exact_gen sv None lo hi S ps Hinv Hmax I). reflexivity.
+Qed.
+
+Lemma live_out_length L : (length (live_out L) <= length L)%nat.
+Proof.
+  unfold live_out. eapply Nat.le_trans with (m := length (heads L)).
+  - induction (heads L) as [|x l IH]; cbn [filter length]; [lia|].
+    destruct (nt x); cbn [length]; lia.
+  - unfold heads. generalize (@None key). induction L as [|x L IH]; intros p; [cbn; lia|].
+    cbn [heads_from length]. specialize (IH (Some (ukey x))).
+    destruct p as [k|]; [destruct (key_eqb k (ukey x))|]; cbn [length]; lia.
+Qed.
+
+Lemma deque_run_front_all l : forall n, (length l < n)%nat ->
+  deque_run l (repeat Front n) = map Some l ++ repeat None (n - length l).
+Proof.
+  induction l as [|x l IH]; intros n Hn.
+  - cbn [length map app]. rewrite Nat.sub_0_r. clear Hn.
+    induction n as [|n IHn]; [reflexivity|]. cbn [repeat deque_run ohd tl]. now rewrite IHn.
+  - destruct n as [|n]; [cbn in Hn; lia|]. cbn [repeat deque_run ohd tl length map app Nat.sub].
+    f_equal. apply IH. cbn [length] in Hn. lia.
+Qed.
+
+Theorem range_exact_front sv lo hi S : check_inv_sv sv = true ->
+  (forall e, In e (content sv) -> seq e < MAX_SEQNO) ->
+  sv_range sv lo hi S = spec_range (content sv) lo hi S.
+Proof.
+  intros Hinv Hmax. unfold sv_range.
+  pose proof (range_sources_perm sv None lo hi S Hinv Hmax I) as HP.
+  pose proof (range_sources_sorted sv None lo hi S Hinv I) as HSs.
+  pose proof (inv_dcmp sv Hinv) as Dc.
+  assert (Dall : dcmp (concat (range_sources sv None lo hi S))).
+  { eapply dcmp_perm; [apply Permutation_sym; exact HP|]. cbn [eph_ov fst snd filter app].
+    now apply dcmp_filter. }
+  destruct (rg_isort_spec _ Dall) as [HSL HPL].
+  set (L := rg_isort (concat (range_sources sv None lo hi S))) in *.
+  assert (Hlen : (length L < range_fuel sv None lo hi S)%nat).
+  { unfold range_fuel. rewrite (Permutation_length HPL). lia. }
+  rewrite (collect_front_TR _ _ _ (live_out L)).
+  - rewrite spec_range_list.
+    change (spec_list (fun k => spec_get (content sv) k S) lo hi (keys_of (content sv)))
+      with (spec_list (overlay_get [] (content sv) 0 S) lo hi (keys_of ([] ++ content sv))).
+    apply scan_equals_spec; auto using dcmp_uniq.
+    + intros e1 e2 [].
+    + contradiction.
+    + intros e. cbn [eph_ov fst snd filter app] in HP. unfold PS in HP. split.
+      * intros He. right. eapply Permutation_in; [exact HP|]. eapply Permutation_in; eauto.
+      * intros [[]|He]. eapply Permutation_in; [apply Permutation_sym; exact HPL|].
+        eapply Permutation_in; [apply Permutation_sym; exact HP|]. exact He.
+  - unfold tree_iter_new. now apply tree_iter_TR.
+  - eapply Nat.le_lt_trans; [apply live_out_length|exact Hlen].
+Qed.
+
+Theorem range_exact_back sv lo hi S n : check_inv_sv sv = true ->
+  (forall e, In e (content sv) -> seq e < MAX_SEQNO) ->
+  sv_range_run sv None lo hi S (repeat Back n) =
+  deque_run (spec_range (content sv) lo hi S) (repeat Back n).
+Proof. intros. now apply range_exact. Qed.
+
+Lemma newest_snapshot_irrelevant k S S' l :
+  (forall e, In e l -> seq e < S) -> S <= S' -> newest k S l = newest k S' l.
+Proof.
+  intros Hall Hle. induction l as [|e l IH]; [reflexivity|]. cbn [newest].
+  rewrite IH by (intros x Hx; apply Hall; right; exact Hx).
+  assert (E : matches k S e = matches k S' e).
+  { unfold matches. f_equal. specialize (Hall e (or_introl eq_refl)).
+    destruct (N.ltb_spec (seq e) S), (N.ltb_spec (seq e) S'); try reflexivity; lia. }
+  now rewrite E.
+Qed.
+
+(** overlay: an overlay memtable newer than everything in the tree, read at its own
+    snapshot seqno [so], shadows the tree key by key *)
+Theorem overlay_shadows sv m so lo hi S ps :
+  check_inv_sv sv = true ->
+  (forall e, In e (content sv) -> seq e < MAX_SEQNO) ->
+  sorted_b (ments m) = true ->
+  (forall e, In e (ments m) -> seq e < MAX_SEQNO) ->
+  (forall x y, In x (ments m) -> In y (content sv) -> seq y < seq x) ->
+  sv_range_run sv (Some (m, so)) lo hi S ps =
+  deque_run (spec_list (overlay_get (ments m) (content sv) so S) lo hi
+                       (keys_of (ments m ++ content sv))) ps.
+Proof.
+  intros Hinv Hmax Hs Hm Hnew.
+  apply (range_exact_gen sv (Some (m, so)) lo hi S ps Hinv Hmax). cbn. auto.
+Qed.
+
+(** ... and when the tree snapshot sees the whole tree and is not above the overlay's,
+    that is the Spec over [ments overlay ++ content sv] at the overlay's snapshot *)
+Corollary overlay_shadows_spec sv m so lo hi S ps :
+  check_inv_sv sv = true ->
+  (forall e, In e (content sv) -> seq e < MAX_SEQNO) ->
+  sorted_b (ments m) = true ->
+  (forall e, In e (ments m) -> seq e < MAX_SEQNO) ->
+  (forall x y, In x (ments m) -> In y (content sv) -> seq y < seq x) ->
+  (forall e, In e (content sv) -> seq e < S) -> S <= so ->
+  sv_range_run sv (Some (m, so)) lo hi S ps =
+  deque_run (spec_range (ments m ++ content sv) lo hi so) ps.
+Proof.
+  intros Hinv Hmax Hs Hm Hnew Hall Hle.
+  rewrite (overlay_shadows sv m so lo hi S ps Hinv Hmax Hs Hm Hnew).
+  f_equal. rewrite spec_range_list. unfold spec_list. apply flat_map_ext. intros k.
+  destruct (in_bounds lo hi k); [|reflexivity]. f_equal.
+  unfold overlay_get, spec_get. f_equal.
+  pose proof (inv_dcmp sv Hinv) as Dc.
+  assert (Dm : dcmp (ments m)) by (apply dcmp_sorted; now apply rg_sorted_SS).
+  assert (U : uniq (ments m ++ content sv)).
+  { apply dcmp_uniq. apply dcmp_app; auto. intros x y Hx Hy. apply cmp_of_newer.
+    intros _. now apply Hnew. }
+  rewrite (newest_app k so (ments m) (content sv) U).
+  - destruct (newest k so (ments m)); [reflexivity|].
+    apply newest_snapshot_irrelevant; auto.
+  - intros e e' He He' _ _. now apply Hnew.
+Qed.
+
+
+(** * 15. Corollaries (abstract_tree.rs) *)
+
+Corollary range_exact_front_run sv lo hi S n : check_inv_sv sv = true ->
+  (forall e, In e (content sv) -> seq e < MAX_SEQNO) ->
+  (length (spec_range (content sv) lo hi S) < n)%nat ->
+  sv_range_run sv None lo hi S (repeat Front n) =
+  map Some (spec_range (content sv) lo hi S)
+  ++ repeat None (n - length (spec_range (content sv) lo hi S)).
+Proof. intros Hinv Hmax Hn. rewrite range_exact by assumption. now apply deque_run_front_all. Qed.
+
+(** first_key_value = the Spec's smallest live pair *)
+Corollary first_key_value sv S : check_inv_sv sv = true ->
+  (forall e, In e (content sv) -> seq e < MAX_SEQNO) ->
+  sv_first_key_value sv None S = ohd (spec_range (content sv) Unb Unb S).
+Proof.
+  intros Hinv Hmax. unfold sv_first_key_value. rewrite range_exact by assumption.
+  cbn [deque_run]. destruct (ohd _); reflexivity.
+Qed.
+
+(** last_key_value = the Spec's largest live pair *)
+Corollary last_key_value sv S : check_inv_sv sv = true ->
+  (forall e, In e (content sv) -> seq e < MAX_SEQNO) ->
+  sv_last_key_value sv None S = olast (spec_range (content sv) Unb Unb S).
+Proof.
+  intros Hinv Hmax. unfold sv_last_key_value. rewrite range_exact by assumption.
+  cbn [deque_run]. destruct (olast _); reflexivity.
+Qed.
+
+Corollary len sv S : check_inv_sv sv = true ->
+  (forall e, In e (content sv) -> seq e < MAX_SEQNO) ->
+  sv_len sv S = length (spec_range (content sv) Unb Unb S).
+Proof. intros Hinv Hmax. unfold sv_len. now rewrite range_exact_front. Qed.
+
+Corollary is_empty sv S : check_inv_sv sv = true ->
+  (forall e, In e (content sv) -> seq e < MAX_SEQNO) ->
+  (sv_is_empty sv None S = true <-> spec_range (content sv) Unb Unb S = []).
+Proof.
+  intros Hinv Hmax. unfold sv_is_empty. rewrite first_key_value by assumption.
+  destruct (spec_range (content sv) Unb Unb S); cbn [ohd]; split; congruence.
+Qed.
+
+(** ... with an overlay (the [index] argument of these functions) *)
+Corollary first_key_value_overlay sv m so S : check_inv_sv sv = true ->
+  (forall e, In e (content sv) -> seq e < MAX_SEQNO) ->
+  sorted_b (ments m) = true -> (forall e, In e (ments m) -> seq e < MAX_SEQNO) ->
+  (forall x y, In x (ments m) -> In y (content sv) -> seq y < seq x) ->
+  sv_first_key_value sv (Some (m, so)) S =
+  ohd (spec_list (overlay_get (ments m) (content sv) so S) Unb Unb (keys_of (ments m ++ content sv))).
+Proof.
+  intros Hinv Hmax Hs Hm Hnew. unfold sv_first_key_value.
+  rewrite overlay_shadows by assumption. cbn [deque_run]. destruct (ohd _); reflexivity.
+Qed.
+
+(** the pairs handed to the caller by Tree::create_range *)
+Corollary range_exact_kv sv lo hi S : check_inv_sv sv = true ->
+  (forall e, In e (content sv) -> seq e < MAX_SEQNO) ->
+  map kv_of (sv_range sv lo hi S) = map kv_of (spec_range (content sv) lo hi S).
+Proof. intros. now rewrite range_exact_front. Qed.
+
+(** * 16. Examples and replayed unit tests *)
+
+Module RangeExamples.
+  Definition E (k : N) (s : N) (t : vtype) (v : N) : entry := mkE [k] s t [v].
+  Definition a := 97. Definition b := 98. Definition c := 99. Definition d := 100.
+  Definition e_ := 101.
+
+  (** a table with the metadata its entries imply *)
+  Definition mk_table (id : N) (l : list entry) : table :=
+    match l with
+    | [] => mkT id 0 [] [] [] 0 0 0 0 0
+    | e0 :: _ => mkT id 0 l (ukey e0) (ukey (last l e0)) (min_seq l) (max_seq l)
+                     (N.of_nat (length l)) (count_b is_tomb l) (count_b is_weak l)
+    end.
+
+  Definition t1 := mk_table 1 [E a 1 Value 1; E b 2 Tomb 0; E b 1 Value 2].
+  Definition t2 := mk_table 2 [E c 3 Value 3; E c 2 Value 2; E d 1 Value 9].
+  Definition t3 := mk_table 3 [E e_ 2 Value 3; E e_ 1 Tomb 0].
+  Definition t4 := mk_table 4 [E a 5 Tomb 0; E d 4 Value 7].
+
+  (** L0 holds a single-table run, L1 a three-table run *)
+  Definition sv_ex : superversion :=
+    mkSV 100 (mkM 3 [E a 9 Value 4; E c 10 Tomb 0])
+      [mkM 1 [E b 6 Value 5; E c 7 Value 1]; mkM 2 [E b 8 WeakTomb 0; E e_ 8 Value 8]]
+      (mkV 0 [[[t4]]; [[t1; t2; t3]]; []; []; []; []; []]).
+
+  Example sv_ex_inv : check_inv_sv sv_ex = true.
+  Proof. vm_compute. reflexivity. Qed.
+
+  Example sv_ex_seqs : forall e, In e (content sv_ex) -> seq e < MAX_SEQNO.
+  Proof.
+    assert (H : forallb (fun e => seq e <? MAX_SEQNO) (content sv_ex) = true)
+      by (vm_compute; reflexivity).
+    rewrite forallb_forall in H. intros e He. apply N.ltb_lt. auto.
+  Qed.
+
+  (** an instance of [range_exact], computed on both sides *)
+  Example range_exact_instance_1 :
+    sv_range_run sv_ex None Unb Unb 100 [Front; Back; Back; Front; Back]
+    = [Some (E a 9 Value 4); Some (E e_ 8 Value 8); Some (E d 4 Value 7); None; None]
+    /\ deque_run (spec_range (content sv_ex) Unb Unb 100) [Front; Back; Back; Front; Back]
+    = [Some (E a 9 Value 4); Some (E e_ 8 Value 8); Some (E d 4 Value 7); None; None].
+  Proof. split; vm_compute; reflexivity. Qed.
+
+  (** an older snapshot and a bounded range: b@6 is live at snapshot 8, c@7 too *)
+  Example range_exact_instance_2 :
+    sv_range_run sv_ex None (Excl [a]) (Incl [d]) 8 [Back; Front; Front; Back]
+    = [Some (E d 4 Value 7); Some (E b 6 Value 5); Some (E c 7 Value 1); None]
+    /\ spec_range (content sv_ex) (Excl [a]) (Incl [d]) 8
+       = [E b 6 Value 5; E c 7 Value 1; E d 4 Value 7].
+  Proof. split; vm_compute; reflexivity. Qed.
+
+  (** inverted range: nothing, no panic *)
+  Example range_inverted : sv_range_run sv_ex None (Incl [d]) (Incl [b]) 100 [Front; Back] = [None; None].
+  Proof. vm_compute. reflexivity. Qed.
+
+  (** an overlay memtable newer than the tree: deletes a, overwrites d, adds [102] *)
+  Definition ov_ex : memtable := mkM 9 [E a 50 Tomb 0; E d 51 Value 70; E 102 52 Value 71].
+
+  Example ov_ex_ok :
+    sorted_b (ments ov_ex) = true
+    /\ forallb (fun x => forallb (fun y => seq y <? seq x) (content sv_ex)) (ments ov_ex) = true
+    /\ forallb (fun e => seq e <? MAX_SEQNO) (ments ov_ex) = true.
+  Proof. repeat split; vm_compute; reflexivity. Qed.
+
+  Example overlay_instance :
+    sv_range_run sv_ex (Some (ov_ex, MAX_SEQNO)) Unb Unb 100 [Front; Front; Front; Front]
+    = [Some (E d 51 Value 70); Some (E e_ 8 Value 8); Some (E 102 52 Value 71); None]
+    /\ spec_range (ments ov_ex ++ content sv_ex) Unb Unb MAX_SEQNO
+       = [E d 51 Value 70; E e_ 8 Value 8; E 102 52 Value 71].
+  Proof. split; vm_compute; reflexivity. Qed.
+
+  Example corollaries_instance :
+    sv_first_key_value sv_ex None 100 = Some (E a 9 Value 4)
+    /\ sv_last_key_value sv_ex None 100 = Some (E e_ 8 Value 8)
+    /\ sv_len sv_ex 100 = 3%nat /\ sv_is_empty sv_ex None 100 = false
+    /\ sv_is_empty sv_ex None 1 = true.
+  Proof. repeat split; vm_compute; reflexivity. Qed.
+
+  (** bounds_widening on concrete probes *)
+  Example widening_instance :
+    map (ikey_in_range (Incl [b]) (Excl [d])) [E a 1 Value 0; E b 9 Value 0; E b 0 Value 0; E c 5 Tomb 0; E d 0 Value 0]
+    = [false; true; true; true; false].
+  Proof. vm_compute. reflexivity. Qed.
+
+  (** *** mvcc_stream.rs unit tests, over a plain vector iterator *)
+  Definition vec_next (fuel : nat) (st : dep (list entry)) :=
+    mvcc_next (list entry) src_next fuel st.
+  Definition vec_next_back (fuel : nat) (st : dep (list entry)) :=
+    mvcc_next_back (list entry) src_next_back fuel st.
+
+  Fixpoint vec_pulls (fuel : nat) (st : dep (list entry)) (ps : list pull) : list (option entry) :=
+    match ps with
+    | [] => []
+    | p :: ps' =>
+        let (o, st') := match p with Front => vec_next fuel st | Back => vec_next_back fuel st end in
+        o :: vec_pulls fuel st' ps'
+    end.
+
+  Definition mvcc_run (v : list entry) (ps : list pull) : list (option entry) :=
+    vec_pulls (S (length v)) (mkDep v Unpeeked Unpeeked) ps.
+
+  Fixpoint somes (l : list (option entry)) : list entry :=
+    match l with [] => [] | Some x :: l' => x :: somes l' | None :: l' => somes l' end.
+
+  (** test_reverse!: forwards reversed = backwards *)
+  Definition test_reverse (v : list entry) : Prop :=
+    rev (somes (mvcc_run v (repeat Front (S (length v)))))
+    = somes (mvcc_run v (repeat Back (S (length v)))).
+
+  (** mvcc_queue_reverse_almost_gone *)
+  Definition v_almost_gone : list entry :=
+    [E a 0 Value a; E b 1 Tomb 0; E b 0 Value b; E c 1 Tomb 0; E c 0 Value c;
+     E d 1 Tomb 0; E d 0 Value d; E e_ 1 Tomb 0; E e_ 0 Value e_].
+
+  Example mvcc_queue_reverse_almost_gone :
+    mvcc_run v_almost_gone [Front; Front; Front; Front; Front; Front; Back]
+    = [Some (E a 0 Value a); Some (E b 1 Tomb 0); Some (E c 1 Tomb 0); Some (E d 1 Tomb 0);
+       Some (E e_ 1 Tomb 0); None; None]
+    /\ test_reverse v_almost_gone.
+  Proof. split; vm_compute; reflexivity. Qed.
+
+  (** mvcc_stream_simple_multi_keys (the stream! macro counts seqnos down from 999) *)
+  Definition v_multi : list entry :=
+    [E a 999 Value 1; E a 998 Value 0; E b 999 Value 1; E b 998 Value 0;
+     E c 999 Value 2; E c 998 Value 1; E c 997 Value 0].
+
+  Example mvcc_stream_simple_multi_keys :
+    mvcc_run v_multi [Front; Front; Front; Front; Back]
+    = [Some (E a 999 Value 1); Some (E b 999 Value 1); Some (E c 999 Value 2); None; None]
+    /\ test_reverse v_multi.
+  Proof. split; vm_compute; reflexivity. Qed.
+
+  (** mvcc_stream_tombstone *)
+  Definition v_tomb : list entry := [E a 999 Tomb 0; E a 998 Value 0].
+
+  Example mvcc_stream_tombstone :
+    mvcc_run v_tomb [Front; Front; Back] = [Some (E a 999 Tomb 0); None; None]
+    /\ test_reverse v_tomb.
+  Proof. split; vm_compute; reflexivity. Qed.
+
+  (** the two ends meeting inside one key's slab *)
+  Example mvcc_meet_in_slab :
+    mvcc_run [E a 1 Value 0; E b 3 Value 3; E b 2 Value 2; E b 1 Value 1] [Front; Back; Front; Back]
+    = [Some (E a 1 Value 0); Some (E b 3 Value 3); None; None]
+    /\ mvcc_run [E a 1 Value 0; E b 3 Value 3; E b 2 Value 2; E b 1 Value 1; E c 1 Value 0]
+                [Front; Back; Front; Front; Back]
+       = [Some (E a 1 Value 0); Some (E c 1 Value 0); Some (E b 3 Value 3); None; None].
+  Proof. split; vm_compute; reflexivity. Qed.
+
+  (** *** merge.rs: merge_simple, plus a two-ended interleaving *)
+  Example merge_simple :
+    let m0 := merger_new [[E a 0 Value 0]; [E b 0 Value 0]] in
+    let (o1, m1) := merge_next m0 in
+    let (o2, m2) := merge_next m1 in
+    let (o3, _) := merge_next m2 in
+    [o1; o2; o3] = [Some (E a 0 Value 0); Some (E b 0 Value 0); None].
+  Proof. vm_compute. reflexivity. Qed.
+
+  Example merge_interleaved :
+    let m0 := merger_new [[E a 3 Value 0; E c 1 Value 0; E d 7 Value 0]; [E b 2 Value 0]; []] in
+    let (o1, m1) := merge_next_back m0 in
+    let (o2, m2) := merge_next m1 in
+    let (o3, m3) := merge_next m2 in
+    let (o4, m4) := merge_next_back m3 in
+    let (o5, _) := merge_next m4 in
+    [o1; o2; o3; o4; o5]
+    = [Some (E d 7 Value 0); Some (E a 3 Value 0); Some (E b 2 Value 0); Some (E c 1 Value 0); None].
+  Proof. vm_compute. reflexivity. Qed.
+
+  (** *** version/run.rs: run_range_culling *)
+  Definition fake (id mn mx : N) : table := mkT id 0 [] [mn] [mx] 0 0 0 0 0.
+  Definition run4 : run := [fake 0 97 100; fake 1 101 106; fake 2 107 111; fake 3 112 122].
+
+  Example run_range_culling :
+    range_overlap_indexes run4 Unb Unb = Some (0, 3)%nat
+    /\ range_overlap_indexes run4 (Incl [97]) (Incl [97]) = Some (0, 0)%nat
+    /\ range_overlap_indexes run4 (Incl [97]) (Excl [100]) = Some (0, 0)%nat
+    /\ range_overlap_indexes run4 (Incl [97]) (Incl [103]) = Some (0, 1)%nat
+    /\ range_overlap_indexes run4 (Incl [106]) (Incl [106]) = Some (1, 1)%nat
+    /\ range_overlap_indexes run4 (Incl [122]) (Incl [122; 122; 122]) = Some (3, 3)%nat
+    /\ range_overlap_indexes run4 (Incl [122]) Unb = Some (3, 3)%nat
+    /\ range_overlap_indexes run4 (Incl [122; 122; 122]) (Incl [122; 122; 122; 122]) = None.
+  Proof. repeat split; vm_compute; reflexivity. Qed.
+End RangeExamples.
+
+
+(** * 16b. RunReader (run_reader.rs) is a deque over [run_reader_items]
+
+    The Merger model consumes every source as a list popped from either end.  For a
+    multi-table run the real source is RunReader's lo/hi state machine; this section
+    shows the two coincide for every interleaving, so the list view loses nothing. *)
+
+Lemma rg_skipn_nth_cons {A} (l : list A) : forall n x,
+  nth_error l n = Some x -> skipn n l = x :: skipn (S n) l.
+Proof.
+  induction l as [|y l IH]; intros n x H; [destruct n; discriminate|].
+  destruct n as [|n]; cbn in *; [now inversion H|]. now apply IH.
+Qed.
+
+Lemma rg_nth_error_skipn {A} (l : list A) : forall n k,
+  nth_error (skipn n l) k = nth_error l (n + k).
+Proof.
+  induction l as [|y l IH]; intros n k.
+  - rewrite skipn_nil. destruct k, n; reflexivity.
+  - destruct n as [|n]; [reflexivity|]. cbn [skipn Nat.add nth_error]. apply IH.
+Qed.
+
+Lemma rg_firstn_S_snoc {A} (l : list A) : forall k x,
+  nth_error l k = Some x -> firstn (S k) l = firstn k l ++ [x].
+Proof.
+  induction l as [|y l IH]; intros k x H; [destruct k; discriminate|].
+  destruct k as [|k]; cbn in *; [now inversion H|]. f_equal. now apply IH.
+Qed.
+
+Lemma rg_nth_error_lt {A} (l : list A) n : (n < length l)%nat -> exists x, nth_error l n = Some x.
+Proof.
+  intros H. destruct (nth_error l n) as [x|] eqn:E; [eauto|].
+  apply nth_error_None in E. lia.
+Qed.
+
+Lemma mid_tables_nil r lo hi : (hi <= S lo)%nat -> mid_tables r lo hi = [].
+Proof.
+  intros H. unfold mid_tables. replace (hi - lo - 1)%nat with O by lia. reflexivity.
+Qed.
+
+Lemma mid_tables_front r lo hi :
+  (S lo < hi)%nat -> (hi <= length r)%nat ->
+  concat (map ents (mid_tables r lo hi)) =
+  tbl_iter_at r (S lo) ++ concat (map ents (mid_tables r (S lo) hi)).
+Proof.
+  intros H1 H2. unfold mid_tables, tbl_iter_at.
+  destruct (rg_nth_error_lt r (S lo)) as (t & Et); [lia|]. rewrite Et.
+  rewrite (rg_skipn_nth_cons r (S lo) t Et).
+  replace (hi - lo - 1)%nat with (S (hi - S lo - 1)) by lia. reflexivity.
+Qed.
+
+Lemma mid_tables_back r lo hi :
+  (S lo < hi)%nat -> (hi <= length r)%nat ->
+  concat (map ents (mid_tables r lo hi)) =
+  concat (map ents (mid_tables r lo (hi - 1))) ++ tbl_iter_at r (hi - 1).
+Proof.
+  intros H1 H2. unfold mid_tables, tbl_iter_at.
+  destruct (rg_nth_error_lt r (hi - 1)) as (t & Et); [lia|]. rewrite Et.
+  replace (hi - lo - 1)%nat with (S (hi - 1 - lo - 1)) by lia.
+  rewrite (rg_firstn_S_snoc _ _ t).
+  - rewrite map_app, concat_app. cbn [map concat]. now rewrite app_nil_r.
+  - rewrite rg_nth_error_skipn. replace (S lo + (hi - 1 - lo - 1))%nat with (hi - 1)%nat by lia.
+    exact Et.
+Qed.
+
+(** what a RunReader still holds *)
+Definition RRI (s : run_reader) (l : list entry) : Prop :=
+  match rr_lo_reader s, rr_hi_reader s with
+  | Some a, Some b =>
+      (rr_lo s < rr_hi s)%nat /\ (rr_hi s <= length (rr_run s))%nat
+      /\ l = a ++ concat (map ents (mid_tables (rr_run s) (rr_lo s) (rr_hi s))) ++ b
+  | Some a, None => (rr_hi s <= rr_lo s)%nat /\ l = a
+  | None, Some b => (rr_hi s <= rr_lo s)%nat /\ l = b
+  | None, None => l = []
+  end.
+
+(** bound on the number of loop turns *)
+Definition rr_mu (s : run_reader) : nat :=
+  match rr_lo_reader s, rr_hi_reader s with
+  | Some _, Some _ => (rr_hi s - rr_lo s + 2)%nat
+  | Some _, None => 2%nat
+  | None, Some _ => 2%nat
+  | None, None => 1%nat
+  end.
+
+Lemma rr_next_spec fuel : forall s l, RRI s l -> (rr_mu s <= fuel)%nat ->
+  exists s', rr_next fuel s = (ohd l, s') /\ RRI s' (tl l) /\ (rr_mu s' <= rr_mu s)%nat.
+Proof.
+  induction fuel as [|fuel IH]; intros [r lo hi lr hr] l H Hmu.
+  { unfold rr_mu in Hmu. cbn in Hmu. destruct lr, hr; lia. }
+  unfold RRI, rr_mu in H, Hmu. cbn [rr_run rr_lo rr_hi rr_lo_reader rr_hi_reader] in H, Hmu.
+  cbn [rr_next rr_run rr_lo rr_hi rr_lo_reader rr_hi_reader].
+  destruct lr as [a|], hr as [b|].
+  - destruct H as (Hlt & Hlen & ->). destruct a as [|x a']; cbn [src_next].
+    + destruct (Nat.ltb_spec (S lo) hi) as [Hlt'|Hge].
+      * destruct (IH (mkRR r (S lo) hi (Some (tbl_iter_at r (S lo))) (Some b))
+                     ([] ++ concat (map ents (mid_tables r lo hi)) ++ b)) as (s' & E & H' & Hm).
+        { unfold RRI. cbn [rr_run rr_lo rr_hi rr_lo_reader rr_hi_reader].
+          repeat split; auto. cbn [app]. rewrite mid_tables_front by assumption.
+          now rewrite app_assoc. }
+        { unfold rr_mu. cbn [rr_run rr_lo rr_hi rr_lo_reader rr_hi_reader]. lia. }
+        exists s'. split; [exact E|]. split; [exact H'|].
+        unfold rr_mu in *. cbn [rr_run rr_lo rr_hi rr_lo_reader rr_hi_reader] in *. lia.
+      * destruct (IH (mkRR r (S lo) hi None (Some b))
+                     ([] ++ concat (map ents (mid_tables r lo hi)) ++ b)) as (s' & E & H' & Hm).
+        { unfold RRI. cbn [rr_run rr_lo rr_hi rr_lo_reader rr_hi_reader].
+          split; [lia|]. now rewrite mid_tables_nil by lia. }
+        { unfold rr_mu. cbn [rr_run rr_lo rr_hi rr_lo_reader rr_hi_reader]. lia. }
+        exists s'. split; [exact E|]. split; [exact H'|].
+        unfold rr_mu in *. cbn [rr_run rr_lo rr_hi rr_lo_reader rr_hi_reader] in *. lia.
+    + eexists. split; [reflexivity|]. split.
+      * unfold RRI. cbn [rr_run rr_lo rr_hi rr_lo_reader rr_hi_reader tl app]. auto.
+      * unfold rr_mu. cbn [rr_run rr_lo rr_hi rr_lo_reader rr_hi_reader]. lia.
+  - destruct H as (Hle & ->). destruct a as [|x a']; cbn [src_next].
+    + destruct (Nat.ltb_spec (S lo) hi) as [Hlt'|Hge]; [lia|].
+      destruct (IH (mkRR r (S lo) hi None None) []) as (s' & E & H' & Hm).
+      { reflexivity. }
+      { unfold rr_mu. cbn. lia. }
+      exists s'. split; [exact E|]. split; [exact H'|].
+      unfold rr_mu in *. cbn [rr_run rr_lo rr_hi rr_lo_reader rr_hi_reader] in *. lia.
+    + eexists. split; [reflexivity|]. split.
+      * unfold RRI. cbn [rr_run rr_lo rr_hi rr_lo_reader rr_hi_reader tl]. auto.
+      * unfold rr_mu. cbn [rr_run rr_lo rr_hi rr_lo_reader rr_hi_reader]. lia.
+  - destruct H as (Hle & ->). destruct b as [|x b']; cbn [src_next].
+    + eexists. split; [reflexivity|]. split.
+      * unfold RRI. cbn [rr_run rr_lo rr_hi rr_lo_reader rr_hi_reader tl]. auto.
+      * unfold rr_mu. cbn [rr_run rr_lo rr_hi rr_lo_reader rr_hi_reader]. lia.
+    + eexists. split; [reflexivity|]. split.
+      * unfold RRI. cbn [rr_run rr_lo rr_hi rr_lo_reader rr_hi_reader tl]. auto.
+      * unfold rr_mu. cbn [rr_run rr_lo rr_hi rr_lo_reader rr_hi_reader]. lia.
+  - subst l. eexists. split; [reflexivity|]. split; [reflexivity|]. unfold rr_mu. cbn. lia.
+Qed.
+
+Lemma src_next_back_nil_or_snoc l :
+  (l = [] /\ src_next_back l = (None, [])) \/
+  (exists l' x, l = l' ++ [x] /\ src_next_back l = (Some x, l')).
+Proof.
+  destruct (rg_snoc_cases l) as [->|(l' & x & ->)]; [left; auto|right].
+  exists l', x. split; [reflexivity|apply src_next_back_snoc].
+Qed.
+
+Lemma rr_next_back_spec fuel : forall s l, RRI s l -> (rr_mu s <= fuel)%nat ->
+  exists s', rr_next_back fuel s = (olast l, s') /\ RRI s' (removelast l)
+             /\ (rr_mu s' <= rr_mu s)%nat.
+Proof.
+  induction fuel as [|fuel IH]; intros [r lo hi lr hr] l H Hmu.
+  { unfold rr_mu in Hmu. cbn in Hmu. destruct lr, hr; lia. }
+  unfold RRI, rr_mu in H, Hmu. cbn [rr_run rr_lo rr_hi rr_lo_reader rr_hi_reader] in H, Hmu.
+  cbn [rr_next_back rr_run rr_lo rr_hi rr_lo_reader rr_hi_reader].
+  destruct lr as [a|], hr as [b|].
+  - destruct H as (Hlt & Hlen & ->).
+    destruct (src_next_back_nil_or_snoc b) as [[-> Eb]|(b' & x & -> & Eb)]; rewrite Eb.
+    + rewrite app_nil_r.
+      destruct (Nat.ltb_spec lo (hi - 1)) as [Hlt'|Hge].
+      * destruct (IH (mkRR r lo (hi - 1) (Some a) (Some (tbl_iter_at r (hi - 1))))
+                     (a ++ concat (map ents (mid_tables r lo hi)))) as (s' & E & H' & Hm).
+        { unfold RRI. cbn [rr_run rr_lo rr_hi rr_lo_reader rr_hi_reader].
+          repeat split; auto; try lia. rewrite mid_tables_back by lia. reflexivity. }
+        { unfold rr_mu. cbn [rr_run rr_lo rr_hi rr_lo_reader rr_hi_reader]. lia. }
+        exists s'. split; [exact E|]. split; [exact H'|].
+        unfold rr_mu in *. cbn [rr_run rr_lo rr_hi rr_lo_reader rr_hi_reader] in *. lia.
+      * destruct (IH (mkRR r lo (hi - 1) (Some a) None)
+                     (a ++ concat (map ents (mid_tables r lo hi)))) as (s' & E & H' & Hm).
+        { unfold RRI. cbn [rr_run rr_lo rr_hi rr_lo_reader rr_hi_reader].
+          split; [lia|]. rewrite mid_tables_nil by lia. apply app_nil_r. }
+        { unfold rr_mu. cbn [rr_run rr_lo rr_hi rr_lo_reader rr_hi_reader]. lia. }
+        exists s'. split; [exact E|]. split; [exact H'|].
+        unfold rr_mu in *. cbn [rr_run rr_lo rr_hi rr_lo_reader rr_hi_reader] in *. lia.
+    + rewrite !app_assoc, olast_snoc, rg_removelast_app_last, <- !app_assoc.
+      eexists. split; [reflexivity|]. split.
+      * unfold RRI. cbn [rr_run rr_lo rr_hi rr_lo_reader rr_hi_reader]. auto.
+      * unfold rr_mu. cbn [rr_run rr_lo rr_hi rr_lo_reader rr_hi_reader]. lia.
+  - destruct H as (Hle & ->).
+    destruct (src_next_back_nil_or_snoc a) as [[-> Ea]|(a' & x & -> & Ea)]; rewrite Ea.
+    + eexists. split; [reflexivity|]. split.
+      * unfold RRI. cbn [rr_run rr_lo rr_hi rr_lo_reader rr_hi_reader removelast]. auto.
+      * unfold rr_mu. cbn [rr_run rr_lo rr_hi rr_lo_reader rr_hi_reader]. lia.
+    + rewrite olast_snoc, rg_removelast_app_last.
+      eexists. split; [reflexivity|]. split.
+      * unfold RRI. cbn [rr_run rr_lo rr_hi rr_lo_reader rr_hi_reader]. auto.
+      * unfold rr_mu. cbn [rr_run rr_lo rr_hi rr_lo_reader rr_hi_reader]. lia.
+  - destruct H as (Hle & ->).
+    destruct (src_next_back_nil_or_snoc b) as [[-> Eb]|(b' & x & -> & Eb)]; rewrite Eb.
+    + destruct (Nat.ltb_spec lo (hi - 1)) as [Hlt'|Hge]; [lia|].
+      destruct (IH (mkRR r lo (hi - 1) None None) []) as (s' & E & H' & Hm).
+      { reflexivity. }
+      { unfold rr_mu. cbn. lia. }
+      exists s'. split; [exact E|]. split; [exact H'|].
+      unfold rr_mu in *. cbn [rr_run rr_lo rr_hi rr_lo_reader rr_hi_reader] in *. lia.
+    + rewrite olast_snoc, rg_removelast_app_last.
+      eexists. split; [reflexivity|]. split.
+      * unfold RRI. cbn [rr_run rr_lo rr_hi rr_lo_reader rr_hi_reader]. auto.
+      * unfold rr_mu. cbn [rr_run rr_lo rr_hi rr_lo_reader rr_hi_reader]. lia.
+  - subst l. eexists. split; [reflexivity|]. split; [reflexivity|]. unfold rr_mu. cbn. lia.
+Qed.
+
+Lemma rr_pulls_deque fuel ps : forall s l, RRI s l -> (rr_mu s <= fuel)%nat ->
+  rr_pulls fuel s ps = deque_run l ps.
+Proof.
+  induction ps as [|p ps IH]; intros s l H Hmu; [reflexivity|].
+  cbn [rr_pulls deque_run]. destruct p.
+  - destruct (rr_next_spec fuel s l H Hmu) as (s' & E & H' & Hm). rewrite E.
+    f_equal. apply IH; [exact H'|lia].
+  - destruct (rr_next_back_spec fuel s l H Hmu) as (s' & E & H' & Hm). rewrite E.
+    f_equal. apply IH; [exact H'|lia].
+Qed.
+
+Lemma roi_bounds r lo hi i j :
+  range_overlap_indexes r lo hi = Some (i, j) -> (i <= j)%nat /\ (j < length r)%nat.
+Proof.
+  rewrite roi_uniform. cbv zeta.
+  set (i0 := partition_point (plo lo) r).
+  pose proof (pp_le (qhi hi) (skipn i0 r)) as Hn. rewrite skipn_length in Hn.
+  destruct (Nat.leb_spec (length r) i0); [discriminate|].
+  destruct (Nat.eqb_spec (i0 + partition_point (qhi hi) (skipn i0 r)) 0); [discriminate|].
+  destruct (Nat.ltb_spec (i0 + partition_point (qhi hi) (skipn i0 r) - 1) i0); [discriminate|].
+  intros E. inversion E; subst. lia.
+Qed.
+
+(** any interleaving of next / next_back on a freshly built RunReader pops
+    [run_reader_items] from either end (and RunReader::new returns None exactly when
+    [run_reader_items] does) *)
+Theorem run_reader_deque r lo hi ps :
+  match rr_new r lo hi, run_reader_items r lo hi with
+  | Some s, Some l => rr_pulls (rr_fuel r) s ps = deque_run l ps
+  | None, None => True
+  | _, _ => False
+  end.
+Proof.
+  unfold rr_new, run_reader_items.
+  destruct (range_overlap_indexes r lo hi) as [[i j]|] eqn:E; [|exact I].
+  destruct (roi_bounds r lo hi i j E) as [Hij Hj].
+  apply rr_pulls_deque.
+  - unfold RRI. cbn [rr_run rr_lo rr_hi rr_lo_reader rr_hi_reader].
+    destruct (Nat.ltb_spec i j) as [Hlt|Hge].
+    + repeat split; auto; lia.
+    + split; [lia|]. apply app_nil_r.
+  - unfold rr_mu, rr_fuel. cbn [rr_run rr_lo rr_hi rr_lo_reader rr_hi_reader].
+    destruct (Nat.ltb i j); lia.
+Qed.
+
+(** run_reader.rs: run_reader_basic (four flushed tables a-c, d-f, g-i, j-l) *)
+Module RunReaderExamples.
+  Import RangeExamples.
+  Definition V (k : N) : entry := mkE [k] 0 Value [].
+  Definition lvl : run :=
+    [mk_table 0 [V 97; V 98; V 99]; mk_table 1 [V 100; V 101; V 102];
+     mk_table 2 [V 103; V 104; V 105]; mk_table 3 [V 106; V 107; V 108]].
+
+  Definition keys_run (lo hi : bound) (ps : list pull) : list (option key) :=
+    match rr_new lvl lo hi with
+    | Some s => map (option_map ukey) (rr_pulls (rr_fuel lvl) s ps)
+    | None => []
+    end.
+
+  Example run_reader_basic_pingpong :
+    keys_run Unb Unb [Front; Back; Front; Back; Front; Back; Front; Back; Front; Back; Front; Back; Front]
+    = [Some [97]; Some [108]; Some [98]; Some [107]; Some [99]; Some [106]; Some [100];
+       Some [105]; Some [101]; Some [104]; Some [102]; Some [103]; None].
+  Proof. vm_compute. reflexivity. Qed.
+
+  Example run_reader_basic_from_g :
+    keys_run (Incl [103]) Unb (repeat Front 7)
+    = [Some [103]; Some [104]; Some [105]; Some [106]; Some [107]; Some [108]; None]
+    /\ keys_run (Incl [103]) Unb (repeat Back 7)
+    = [Some [108]; Some [107]; Some [106]; Some [105]; Some [104]; Some [103]; None].
+  Proof. split; vm_compute; reflexivity. Qed.
+
+  (** run_reader_skip *)
+  Example run_reader_skip :
+    rr_new lvl (Incl [121]) (Incl [122]) = None /\ rr_new lvl (Incl [121]) Unb = None.
+  Proof. split; vm_compute; reflexivity. Qed.
+End RunReaderExamples.
+
+(** * 17. Assumptions *)
+Print Assumptions bounds_widening.
+Print Assumptions pipeline_deque.
+Print Assumptions run_reader_items_exact.
+Print Assumptions run_reader_deque.
+Print Assumptions range_exact_gen.
+Print Assumptions range_exact.
+Print Assumptions range_exact_front.
+Print Assumptions range_exact_back.
+Print Assumptions overlay_shadows.
+Print Assumptions overlay_shadows_spec.
+Print Assumptions first_key_value.
+Print Assumptions last_key_value.
+Print Assumptions len.
+Print Assumptions is_empty.
